@@ -3,6 +3,7 @@ package rules
 import (
 	"fmt"
 	"go/ast"
+	"go/constant"
 	"go/parser"
 	"go/token"
 	"go/types"
@@ -27,141 +28,6 @@ func c14(c *rt.Ctx) {
 
 // ---------------------------------------------------------------------------------------------
 // shared helpers
-
-// c14RetVals returns the results of a return, looking through named-result spill slots
-// (`defer` makes returns read `*slot` after a store in the same block).
-func c14RetVals(r *ssa.Return) []ssa.Value {
-	out := make([]ssa.Value, len(r.Results))
-	for i, v := range r.Results {
-		out[i] = v
-		ld, ok := v.(*ssa.UnOp)
-		if !ok || ld.Op != token.MUL {
-			continue
-		}
-		al, ok := ld.X.(*ssa.Alloc)
-		if !ok {
-			continue
-		}
-		for _, in := range r.Block().Instrs {
-			if in == ssa.Instruction(ld) {
-				break
-			}
-			if st, ok := in.(*ssa.Store); ok && st.Addr == ssa.Value(al) {
-				out[i] = st.Val
-			}
-		}
-	}
-	return out
-}
-
-// c14ErrOf returns the error result of a return (nil if the function has none).
-func c14ErrOf(r *ssa.Return) ssa.Value {
-	vals := c14RetVals(r)
-	if len(vals) == 0 {
-		return nil
-	}
-	last := vals[len(vals)-1]
-	if !an.IsErrorType(last.Type()) {
-		return nil
-	}
-	return last
-}
-
-func c14IsNil(v ssa.Value) bool {
-	k, ok := v.(*ssa.Const)
-	return ok && k.Value == nil
-}
-
-// c14Returns lists the returns of fn except the panic-recovery exit.
-func c14Returns(fn *ssa.Function) []*ssa.Return {
-	var out []*ssa.Return
-	for _, r := range an.Returns(fn) {
-		if fn.Recover != nil && r.Block() == fn.Recover {
-			continue
-		}
-		out = append(out, r)
-	}
-	return out
-}
-
-// c14ReachRets: the returns reachable from the top of block b.
-func c14ReachRets(b *ssa.BasicBlock) []*ssa.Return {
-	var out []*ssa.Return
-	for x := range an.ReachBlocks(b, nil) {
-		if len(x.Instrs) == 0 {
-			continue
-		}
-		if r, ok := x.Instrs[len(x.Instrs)-1].(*ssa.Return); ok {
-			out = append(out, r)
-		}
-	}
-	return out
-}
-
-// c14Success: (a return with the nil error constant is reachable from b, any return is reachable).
-func c14Success(b *ssa.BasicBlock) (bool, bool) {
-	rets := c14ReachRets(b)
-	for _, r := range rets {
-		if e := c14ErrOf(r); e != nil && c14IsNil(e) {
-			return true, true
-		}
-	}
-	return false, len(rets) > 0
-}
-
-// c14Cmp is a branch on `Val == K` / `Val != K` (negations folded): Eq is the successor taken
-// when Val equals the constant.
-type c14Cmp struct {
-	If     *ssa.If
-	Val    ssa.Value
-	K      *ssa.Const
-	Eq, Ne *ssa.BasicBlock
-}
-
-func c14Cmps(fn *ssa.Function) []c14Cmp {
-	var out []c14Cmp
-	for _, b := range fn.Blocks {
-		if len(b.Instrs) == 0 {
-			continue
-		}
-		iff, ok := b.Instrs[len(b.Instrs)-1].(*ssa.If)
-		if !ok {
-			continue
-		}
-		cond, neg := iff.Cond, false
-		for {
-			u, ok := cond.(*ssa.UnOp)
-			if !ok || u.Op != token.NOT {
-				break
-			}
-			cond, neg = u.X, !neg
-		}
-		bin, ok := cond.(*ssa.BinOp)
-		if !ok || (bin.Op != token.EQL && bin.Op != token.NEQ) {
-			continue
-		}
-		var k *ssa.Const
-		var v ssa.Value
-		if kk, ok := bin.Y.(*ssa.Const); ok && kk.Value != nil {
-			k, v = kk, bin.X
-		} else if kk, ok := bin.X.(*ssa.Const); ok && kk.Value != nil {
-			k, v = kk, bin.Y
-		} else {
-			continue
-		}
-		cm := c14Cmp{If: iff, Val: v, K: k, Eq: b.Succs[0], Ne: b.Succs[1]}
-		if (bin.Op == token.EQL) == neg {
-			cm.Eq, cm.Ne = cm.Ne, cm.Eq
-		}
-		out = append(out, cm)
-	}
-	return out
-}
-
-// c14Edge: block b is only executed after the branch took `succ` (not `other`).
-func c14Edge(succ, other, b *ssa.BasicBlock) bool {
-	return succ != other && len(succ.Preds) == 1 && succ.Dominates(b)
-}
 
 // c14FieldSel decodes a field selection instruction.
 func c14FieldSel(v ssa.Value) (st types.Type, name string, base ssa.Value, ok bool) {
@@ -229,69 +95,190 @@ func c14SortedKeys[V any](m map[string]V) []string {
 // ---------------------------------------------------------------------------------------------
 // M1 dispatch exhaustiveness
 
-type c14Dispatch struct {
-	cases    map[string]c14Cmp // constant name -> branch
-	defaults []*ssa.BasicBlock
+// c14Carries: the resolved argument is the tag value or an aggregate that contains it.
+func c14Carries(arg, tag symCV) bool {
+	if arg == tag {
+		return true
+	}
+	return arg.v != nil && arg.v == tag.v && arg.f == tag.f && arg.p != tag.p && symPathCovers(arg.p, tag.p)
 }
 
-// c14DispatchOn collects the `tag == const` chain of fn (switch or if-chain) for tags accepted
-// by isTag, with the blocks reached when no constant matches.
-func c14DispatchOn(fn *ssa.Function, isTag func(ssa.Value) bool) c14Dispatch {
-	d := c14Dispatch{cases: map[string]c14Cmp{}}
-	var cmps []c14Cmp
-	cmpBlock := map[*ssa.BasicBlock]bool{}
-	for _, cm := range c14Cmps(fn) {
-		nt := c14Named(cm.K.Type())
-		if nt == nil || !isTag(cm.Val) {
-			continue
-		}
-		cmps = append(cmps, cm)
-		cmpBlock[cm.If.Block()] = true
+// c14DependsCV: the value is computed from the tag (comparisons, conversions, calls on it) - used to tell an
+// undecided branch that is about the tag from an unrelated one.
+func c14DependsCV(st *symState, v ssa.Value, f int, tag symCV, depth int) bool {
+	c := st.resolve(v, f)
+	if c14Carries(tag, c) || c14Carries(c, tag) {
+		return true
 	}
-	for _, cm := range cmps {
-		name := c14ConstName(c14Named(cm.K.Type()), cm.K)
-		if name == "" {
-			name = "#" + cm.K.Value.ExactString()
-		}
-		d.cases[name] = cm
-		if !cmpBlock[cm.Ne] {
-			d.defaults = append(d.defaults, cm.Ne)
+	if depth > 6 || c.p != "" {
+		return false
+	}
+	in, ok := c.v.(ssa.Instruction)
+	if !ok {
+		return false
+	}
+	if _, isPhi := in.(*ssa.Phi); isPhi {
+		return false
+	}
+	for _, op := range in.Operands(nil) {
+		if op != nil && *op != nil && c14DependsCV(st, *op, c.f, tag, depth+1) {
+			return true
 		}
 	}
-	return d
+	return false
+}
+
+// c14TagOutcome summarises the returns of a function explored under "tag == k".
+type c14TagOutcome struct {
+	nilRet, unknownRet, nonNilRet int
+	nilUnderDoubt                 int // nil returns reached through an undecided branch on the tag
+	reached                       bool
+	complete                      bool
+}
+
+// c14ExploreTag explores fn with the fact tag == k. tagOf yields the tag's canonical value in the root frame.
+// Static callees of the same package that receive the tag are explored in place. reach (optional) is matched
+// against every call executed on a path.
+func c14ExploreTag(fn *ssa.Function, tagOf func(x *symX) symCV, k constant.Value, reach an.Matcher) c14TagOutcome {
+	var out c14TagOutcome
+	var tag symCV
+	out.complete = symExplore(fn, symHooks{
+		Init: func(x *symX) {
+			tag = tagOf(x)
+			x.st.learn(tag, k, true)
+		},
+		Inline: func(x *symX, site ssa.CallInstruction, callee *ssa.Function) bool {
+			if !c14SamePkg(callee, fn) {
+				return false
+			}
+			if callee.Parent() != nil {
+				return true // closures of the function under analysis
+			}
+			for _, a := range site.Common().Args {
+				if c14Carries(x.R(a), tag) {
+					return true
+				}
+			}
+			return false
+		},
+		Before: func(x *symX, in ssa.Instruction) {
+			switch y := in.(type) {
+			case *ssa.If:
+				if x.Bool(y.Cond) == 0 && c14DependsCV(x.st, y.Cond, x.fr.id, tag, 0) {
+					x.SetFlag("tag-undecided")
+				}
+			case ssa.CallInstruction:
+				if reach != nil && reach(y.Common()) {
+					out.reached = true
+				}
+			}
+		},
+		Return: func(x *symX, ret *ssa.Return, res []symCV) {
+			if len(res) == 0 {
+				return
+			}
+			switch x.NilCV(res[len(res)-1]) {
+			case -1:
+				out.nilRet++
+				if x.Flag("tag-undecided") {
+					out.nilUnderDoubt++
+				}
+			case 1:
+				out.nonNilRet++
+			default:
+				out.unknownRet++
+			}
+		},
+	})
+	return out
+}
+
+// c14DutyConsts: the declared constants of core.DutyType and a value that is none of them.
+func c14DutyConsts(c *rt.Ctx) (map[string]constant.Value, constant.Value) {
+	sc := c.Pkg("core").Types.Scope()
+	obj := sc.Lookup("DutyType")
+	if obj == nil {
+		c.Bail("core.DutyType not found")
+	}
+	out := map[string]constant.Value{}
+	max := int64(0)
+	for _, n := range sc.Names() {
+		if cst, ok := sc.Lookup(n).(*types.Const); ok && types.Identical(cst.Type(), obj.Type()) {
+			out[n] = cst.Val()
+			if v, ok := constant.Int64Val(cst.Val()); ok && v > max {
+				max = v
+			}
+		}
+	}
+	if len(out) == 0 {
+		c.Bail("core.DutyType has no constants")
+	}
+	return out, constant.MakeInt64(max + 1000003)
 }
 
 func c14M1(c *rt.Ctx) {
-	isDutyTypeParam := func(v ssa.Value) bool {
-		p, ok := v.(*ssa.Parameter)
-		return ok && an.TypeName(p.Type()) == "core.DutyType"
+	consts, other := c14DutyConsts(c)
+	type decoder struct {
+		fn  *ssa.Function
+		tag func(x *symX) symCV
 	}
-	decoders := map[string]c14Dispatch{}
+	decoders := map[string]decoder{}
 	for _, name := range []string{"core.ParSignedDataFromProto", "core.unmarshalUnsignedData"} {
 		fn := c.Fn(name)
-		d := c14DispatchOn(fn, isDutyTypeParam)
-		if len(d.cases) == 0 || len(d.defaults) == 0 {
-			c.Bail("%s: no dispatch on the duty type parameter found", name)
-		}
-		decoders[name] = d
-		good, why := true, ""
-		for _, b := range d.defaults {
-			succ, any := c14Success(b)
-			if succ {
-				good, why = false, "an unknown duty type reaches a successful return: the decoder accepts data it has no type for"
-			} else if !any {
-				good, why = false, "the no-match edge reaches no return"
+		var tagParam *ssa.Parameter
+		for _, p := range fn.Params {
+			if _, isPtr := p.Type().(*types.Pointer); !isPtr && an.TypeName(p.Type()) == "core.DutyType" {
+				tagParam = p
 			}
 		}
-		c.Check(name+" default→error", fn.Pos(), good, why)
-	}
-	covered := func(dec, k string) bool {
-		cm, ok := decoders[dec].cases[k]
-		if !ok {
-			return false
+		if tagParam == nil {
+			c.Bail("%s: no duty type parameter", name)
 		}
-		succ, _ := c14Success(cm.Eq)
-		return succ
+		d := decoder{fn, func(x *symX) symCV { return x.R(tagParam) }}
+		decoders[name] = d
+		o := c14ExploreTag(fn, d.tag, other, nil)
+		switch {
+		case !o.complete:
+			c.Unsure(name+" default→error", fn.Pos(), "path exploration exceeded its budget")
+		case o.nilRet+o.unknownRet+o.nonNilRet == 0:
+			c.Bad(name+" default→error", fn.Pos(), "an unknown duty type reaches no return")
+		case o.nilRet > o.nilUnderDoubt:
+			c.Bad(name+" default→error", fn.Pos(), "an unknown duty type reaches a successful return: the decoder accepts data it has no type for")
+		case o.nilRet > 0 || o.unknownRet > 0:
+			c.Unsure(name+" default→error", fn.Pos(), "cannot tell whether every return reached with an unknown duty type carries an error")
+		default:
+			c.Good(name+" default→error", fn.Pos(), "")
+		}
+	}
+	coveredMemo := map[string]int{}
+	covered := func(dec, k string) int {
+		key := dec + "|" + k
+		if v, ok := coveredMemo[key]; ok {
+			return v
+		}
+		kv, ok := consts[k]
+		v := c14Bad
+		if ok {
+			o := c14ExploreTag(decoders[dec].fn, decoders[dec].tag, kv, nil)
+			switch {
+			case !o.complete:
+				v = c14Unsure
+			case o.nilRet+o.unknownRet > 0:
+				v = c14OK
+			}
+		}
+		coveredMemo[key] = v
+		return v
+	}
+	report := func(construct string, pos token.Pos, st int, why string) {
+		switch st {
+		case c14OK:
+			c.Good(construct, pos, "")
+		case c14Unsure:
+			c.Unsure(construct, pos, "path exploration exceeded its budget")
+		default:
+			c.Bad(construct, pos, why)
+		}
 	}
 
 	// signed: duty types of every call that hands a locally constructed duty plus a ParSignedDataSet on
@@ -352,37 +339,50 @@ func c14M1(c *rt.Ctx) {
 	}
 	for _, k := range c14SortedKeys(signed) {
 		s := signed[k]
-		c.Check("core.ParSignedDataFromProto covers "+k, s.pos, covered("core.ParSignedDataFromProto", k),
+		report("core.ParSignedDataFromProto covers "+k, s.pos, covered("core.ParSignedDataFromProto", k),
 			"partial signatures of this duty type are produced (in "+s.fn+") but the peer-side decoder has no successful case for it")
 	}
 
-	// unsigned: the cases of fetcher.Fetch that reach the subscriber fan-out
+	// unsigned: the duty types for which fetcher.Fetch reaches the subscriber fan-out
 	fetch := c.Fn("core/fetcher.Fetcher.Fetch")
-	subs := c.SomeCalls(fetch, an.FieldCall("core/fetcher.Fetcher.subs"), "fetcher subscribers", false)
-	fd := c14DispatchOn(fetch, func(v ssa.Value) bool {
-		ld, ok := v.(*ssa.UnOp)
-		if !ok || ld.Op != token.MUL {
-			return false
+	var dutyParam *ssa.Parameter
+	for _, p := range fetch.Params {
+		if _, isPtr := p.Type().(*types.Pointer); !isPtr && an.TypeName(p.Type()) == "core.Duty" {
+			dutyParam = p
 		}
-		st, name, _, ok := c14FieldSel(ld.X)
-		return ok && an.TypeName(st) == "core.Duty" && name == "Type"
-	})
-	if len(fd.cases) == 0 {
-		c.Bail("fetcher.Fetch: no dispatch on duty.Type found")
 	}
-	for _, k := range c14SortedKeys(fd.cases) {
-		cm := fd.cases[k]
-		reaches := false
-		for _, s := range subs {
-			if !an.EdgeCuts(cm.Eq, s, nil) {
-				reaches = true
+	if dutyParam == nil {
+		c.Bail("fetcher.Fetch: no core.Duty parameter")
+	}
+	typeIdx := -1
+	if st, ok := dutyParam.Type().Underlying().(*types.Struct); ok {
+		for i := 0; i < st.NumFields(); i++ {
+			if st.Field(i).Name() == "Type" {
+				typeIdx = i
 			}
 		}
-		if !reaches {
+	}
+	if typeIdx < 0 {
+		c.Bail("core.Duty has no Type field")
+	}
+	fetchTag := func(x *symX) symCV { return x.st.project(x.R(dutyParam), fmt.Sprintf(".%d", typeIdx)) }
+	subs := an.FieldCall("core/fetcher.Fetcher.subs")
+	nReach := 0
+	for _, k := range c14SortedKeys(consts) {
+		o := c14ExploreTag(fetch, fetchTag, consts[k], subs)
+		if !o.complete {
+			c.Unsure("core.unmarshalUnsignedData covers "+k, fetch.Pos(), "path exploration of fetcher.Fetch exceeded its budget")
 			continue
 		}
-		c.Check("core.unmarshalUnsignedData covers "+k, posOf(cm.If), covered("core.unmarshalUnsignedData", k),
+		if !o.reached {
+			continue
+		}
+		nReach++
+		report("core.unmarshalUnsignedData covers "+k, fetch.Pos(), covered("core.unmarshalUnsignedData", k),
 			"the fetcher produces unsigned data for this duty type but the consensus-side decoder has no successful case for it")
+	}
+	if nReach == 0 {
+		c.Bail("fetcher.Fetch: the subscriber fan-out is not reached for any duty type")
 	}
 }
 
@@ -489,12 +489,13 @@ func c14DutyOrigins(v ssa.Value, depth int) []c14Origin {
 func init() {
 	Register(&Prop{
 		ID: "C14",
-		Decides: "core data encoding: (M1) the duty-type dispatch of ParSignedDataFromProto / unmarshalUnsignedData rejects unknown types and has a successful case for every duty type the repository produces partial signatures / unsigned data for; " +
-			"(M2) both hashProto copies hash the checked output of proto.MarshalOptions{Deterministic:true}.Marshal and perform the same hashing steps; " +
-			"(M3) a version payload that UnmarshalJSON can leave nil (JSON null) is nil-tested or validated by a library accessor before the first dereference on the receive prefix Epoch→MessageRoot→Signature of VerifyEth2SignedData, and dutydb consumes consensus-decided unsigned data only through its checked Clone(); " +
-			"(M4) the two *FromProto decoders run their decode calls under a deferred recover that assigns the error result; " +
-			"(M5) every Clone/clone of a SignedData/UnsignedData implementor returns a fresh value filled by the checked SSZ/JSON codec helper from the receiver (byte copy for Signature, element-wise for SyncContributions); " +
-			"(M6) all version switches of one versioned wrapper handle the same set of versions and each case touches only the payload field of its own version and blinded polarity.",
+		Decides: "core data encoding, decided per path by a symbolic walk of the SSA (phis by entry edge, locals by last store, in-package helpers and closures explored in place, nil/constant facts learned at branches): " +
+			"(M1) under `type == K` ParSignedDataFromProto / unmarshalUnsignedData reach a return whose error is not known non-nil for every duty type K the repository produces partial signatures / unsigned data for, and only non-nil errors for a type that is no declared constant; " +
+			"(M2) in both hashProto copies every proto Marshal call is MarshalOptions.Marshal with Deterministic==true, every Hasher.PutBytes argument is the byte result of such a call whose error is known nil at that point, a successful return yields HashRoot's checked result, and the copies perform the same hasher steps; " +
+			"(M3) VerifyEth2SignedData calls the methods of the decoded value in one order and never calls a later one while an earlier error may be non-nil; a version payload that UnmarshalJSON can store nil (JSON null) is known non-nil or preceded by a successful validating library accessor wherever a method of that receive prefix dereferences it; dutydb uses a decoded UnsignedData for nothing but Clone() and uses the clone only where Clone() is known to have succeeded; " +
+			"(M4) every decode call of the two *FromProto decoders is preceded on every path by a defer of a function that calls recover() itself and stores a non-nil error into the named error result whenever the recovered value may be non-nil; " +
+			"(M5) every successful return of a Clone/clone of a SignedData/UnsignedData implementor yields the content of a local of the receiver's type filled from the receiver by a successful cloneSSZMarshaler/cloneJSONMarshaler call and not assigned afterwards (byte copy for Signature, element-wise checked Clone for SyncContributions), and the two codec helpers decode exactly the bytes they encoded; " +
+			"(M6) all functions of one versioned wrapper that dispatch on the version handle the same versions, and a payload field that is only reached when the version is K / the value is (un)blinded belongs to K / has that polarity.",
 		NotDecided: "round-trip equality of values and signing roots, byte-level totality of the SSZ/JSON decoders of go-eth2-client, nil sub-objects below the version payload (validated by the library decoders), determinism of JSON encodings.",
 		Run:        c14,
 		Mutants:    c14Mutants,
@@ -502,178 +503,590 @@ func init() {
 }
 
 // ---------------------------------------------------------------------------------------------
+// obligation aggregation: the explorer meets the same instruction on many paths; an obligation holds when it
+// holds on all of them, is UNDECIDED when some path could not be judged and a VIOLATION when one path breaks it.
+
+const (
+	c14OK = iota
+	c14Unsure
+	c14Bad
+)
+
+type c14Item struct {
+	construct string
+	pos       token.Pos
+	status    int
+	why       string
+}
+
+type c14Agg struct {
+	order []string
+	items map[string]*c14Item
+}
+
+func newC14Agg() *c14Agg { return &c14Agg{items: map[string]*c14Item{}} }
+
+func (a *c14Agg) add(construct string, pos token.Pos, status int, why string) {
+	a.addAt(construct, "", pos, status, why)
+}
+
+// addAt distinguishes instances of one construct at one position by a context (the inlining chain of a helper
+// that serves several call sites).
+func (a *c14Agg) addAt(construct, ctx string, pos token.Pos, status int, why string) {
+	k := fmt.Sprintf("%s@%d@%s", construct, pos, ctx)
+	it := a.items[k]
+	if it == nil {
+		it = &c14Item{construct: construct, pos: pos}
+		a.items[k] = it
+		a.order = append(a.order, k)
+	}
+	if status > it.status {
+		it.status, it.why = status, why
+	}
+}
+
+func (a *c14Agg) has(construct string) bool {
+	for _, it := range a.items {
+		if it.construct == construct {
+			return true
+		}
+	}
+	return false
+}
+
+func (a *c14Agg) flush(c *rt.Ctx) {
+	for _, k := range a.order {
+		it := a.items[k]
+		switch it.status {
+		case c14OK:
+			c.Good(it.construct, it.pos, "")
+		case c14Unsure:
+			c.Unsure(it.construct, it.pos, it.why)
+		default:
+			c.Bad(it.construct, it.pos, it.why)
+		}
+	}
+}
+
+// c14PkgOf returns the package a function belongs to (the generic origin's package for an instantiation, the
+// enclosing function's for a literal).
+func c14PkgOf(fn *ssa.Function) *ssa.Package {
+	for i := 0; i < 8 && fn != nil; i++ {
+		if fn.Pkg != nil {
+			return fn.Pkg
+		}
+		if o := fn.Origin(); o != nil && o != fn {
+			fn = o
+			continue
+		}
+		fn = fn.Parent()
+	}
+	return nil
+}
+
+func c14SamePkg(a, b *ssa.Function) bool {
+	pa, pb := c14PkgOf(a), c14PkgOf(b)
+	return pa != nil && pa == pb
+}
+
+// c14InRepo: the function is declared in the analysed module (its body is available).
+func c14InRepo(fn *ssa.Function) bool {
+	p := c14PkgOf(fn)
+	return p != nil && p.Pkg != nil && (p.Pkg.Path() == load.Mod || strings.HasPrefix(p.Pkg.Path(), load.Mod+"/"))
+}
+
+// c14ContainsRepo is c14Contains following static callees anywhere in the module.
+func c14ContainsRepo(fn *ssa.Function, m an.Matcher, depth int, seen map[*ssa.Function]bool) bool {
+	if fn == nil || fn.Blocks == nil || depth > 3 || seen[fn] {
+		return false
+	}
+	seen[fn] = true
+	for _, in := range an.Instrs(fn, true) {
+		ci, ok := in.(ssa.CallInstruction)
+		if !ok {
+			continue
+		}
+		if m(ci.Common()) {
+			return true
+		}
+		if g := ci.Common().StaticCallee(); g != nil && c14InRepo(g) && c14ContainsRepo(g, m, depth+1, seen) {
+			return true
+		}
+	}
+	return false
+}
+
+// c14InlineRepoIf is c14InlineIf for helpers anywhere in the module.
+func c14InlineRepoIf(m an.Matcher) func(x *symX, site ssa.CallInstruction, callee *ssa.Function) bool {
+	memo := map[*ssa.Function]bool{}
+	return func(x *symX, site ssa.CallInstruction, callee *ssa.Function) bool {
+		if !c14InRepo(callee) {
+			return false
+		}
+		if v, ok := memo[callee]; ok {
+			return v
+		}
+		v := c14ContainsRepo(callee, m, 0, map[*ssa.Function]bool{})
+		memo[callee] = v
+		return v
+	}
+}
+
+// c14Contains: fn, or a static callee of the same package up to three calls below it, contains a call matching m.
+func c14Contains(fn *ssa.Function, m an.Matcher, depth int, seen map[*ssa.Function]bool) bool {
+	if fn == nil || fn.Blocks == nil || depth > 3 || seen[fn] {
+		return false
+	}
+	seen[fn] = true
+	for _, in := range an.Instrs(fn, true) {
+		ci, ok := in.(ssa.CallInstruction)
+		if !ok {
+			continue
+		}
+		if m(ci.Common()) {
+			return true
+		}
+		if g := ci.Common().StaticCallee(); g != nil && c14SamePkg(g, fn) && c14Contains(g, m, depth+1, seen) {
+			return true
+		}
+	}
+	return false
+}
+
+// c14InlineIf builds an Inline hook: static callees of the root's package (helpers, closures) that contain a call
+// matching m somewhere below them are explored in place.
+func c14InlineIf(root *ssa.Function, m an.Matcher) func(x *symX, site ssa.CallInstruction, callee *ssa.Function) bool {
+	memo := map[*ssa.Function]bool{}
+	return func(x *symX, site ssa.CallInstruction, callee *ssa.Function) bool {
+		if !c14SamePkg(callee, root) {
+			return false
+		}
+		if v, ok := memo[callee]; ok {
+			return v
+		}
+		v := c14Contains(callee, m, 0, map[*ssa.Function]bool{})
+		memo[callee] = v
+		return v
+	}
+}
+
+// ---------------------------------------------------------------------------------------------
 // M2 deterministic marshalling before hashing
 
 const c14ProtoMarshal = "google.golang.org/protobuf/proto.MarshalOptions.Marshal"
 
+func c14IsProtoMarshal(cc *ssa.CallCommon) bool {
+	f := cc.StaticCallee()
+	return f != nil && strings.HasPrefix(an.FuncName(f), "google.golang.org/protobuf/proto.") && strings.Contains(f.Name(), "Marshal") && !strings.Contains(f.Name(), "Unmarshal")
+}
+
+func c14IsHashStep(cc *ssa.CallCommon) bool {
+	f := cc.StaticCallee()
+	return f != nil && strings.HasPrefix(an.FuncName(f), "github.com/ferranbt/fastssz.Hasher.")
+}
+
 func c14M2(c *rt.Ctx) {
-	isHashStep := func(cc *ssa.CallCommon) bool {
-		f := cc.StaticCallee()
-		if f == nil {
-			return false
-		}
-		n := an.FuncName(f)
-		return strings.HasPrefix(n, "github.com/ferranbt/fastssz.Hasher.")
-	}
-	var seqs []string
+	var seqs []map[string]bool
 	var fns []*ssa.Function
 	for _, name := range []string{"core/consensus/qbft.hashProto", "core/priority.hashProto"} {
 		fn := c.Fn(name)
 		fns = append(fns, fn)
-		// every proto marshalling call of the function
-		var marsh []ssa.CallInstruction
-		for _, ci := range an.Calls(fn, func(cc *ssa.CallCommon) bool {
-			f := cc.StaticCallee()
-			return f != nil && strings.HasPrefix(an.FuncName(f), "google.golang.org/protobuf/proto.") && strings.Contains(f.Name(), "Marshal")
-		}, true) {
-			marsh = append(marsh, ci)
-		}
-		if len(marsh) == 0 {
+		if !c14ContainsRepo(fn, c14IsProtoMarshal, 0, map[*ssa.Function]bool{}) {
 			c.Bail("%s: no protobuf marshalling call found", name)
 		}
-		for _, m := range marsh {
-			ok, why := c14Deterministic(m)
-			c.Check(name+" marshals deterministically", m.Pos(), ok, why)
-		}
-		// the hashed bytes are the deterministic encoding
-		puts := an.Calls(fn, an.Static("github.com/ferranbt/fastssz.Hasher.PutBytes"), true)
-		if len(puts) == 0 {
-			c.Bail("%s: no Hasher.PutBytes call found", name)
-		}
-		for _, p := range puts {
-			good := false
-			if len(marsh) == 1 && len(p.Common().Args) == 2 {
-				if ex, ok := p.Common().Args[1].(*ssa.Extract); ok && ex.Index == 0 && ex.Tuple == marsh[0].Value() {
-					g, _ := an.Guarded(marsh[0], p, an.DefaultGuard)
-					good = g
-				}
-			}
-			c.Check(name+" hashes the deterministic bytes", p.Pos(), good, "the bytes put into the hasher are not the checked result of the function's single protobuf Marshal call")
-		}
-		var seq []string
-		for _, ci := range an.Calls(fn, isHashStep, false) {
-			if _, isDefer := ci.(*ssa.Defer); isDefer {
-				continue
-			}
-			seq = append(seq, an.CalleeName(ci.Common()))
-		}
-		seqs = append(seqs, strings.Join(seq, " → "))
-		// the result is the hasher's root
-		roots := an.Calls(fn, an.Static("github.com/ferranbt/fastssz.Hasher.HashRoot"), false)
-		good := len(roots) == 1
-		if good {
-			for _, r := range c14Returns(fn) {
-				if e := c14ErrOf(r); e == nil || !c14IsNil(e) {
-					continue
-				}
-				ex, ok := c14RetVals(r)[0].(*ssa.Extract)
-				if !ok || ex.Index != 0 || ex.Tuple != roots[0].Value() {
-					good = false
-				}
-			}
-		}
-		c.Check(name+" returns the hash root", fn.Pos(), good, "a successful return does not yield Hasher.HashRoot's result")
-	}
-	c.Check("hashProto siblings agree (qbft, priority)", fns[1].Pos(), seqs[0] == seqs[1],
-		"the two copies perform different hashing steps: "+seqs[0]+"  vs  "+seqs[1])
-}
-
-// c14Deterministic: the call is proto.MarshalOptions{...Deterministic: true...}.Marshal.
-func c14Deterministic(m ssa.CallInstruction) (bool, string) {
-	f := m.Common().StaticCallee()
-	if an.FuncName(f) != c14ProtoMarshal {
-		return false, "marshals with " + an.FuncName(f) + ", whose map ordering is not deterministic"
-	}
-	ld, ok := m.Common().Args[0].(*ssa.UnOp)
-	if !ok || ld.Op != token.MUL {
-		return false, "marshal options are not a local literal"
-	}
-	al, ok := ld.X.(*ssa.Alloc)
-	if !ok {
-		return false, "marshal options are not a local literal"
-	}
-	set, why := c14DetAlloc(al, m, 0)
-	if why != "" {
-		return false, why
-	}
-	if !set {
-		return false, "Deterministic option is not set"
-	}
-	return true, ""
-}
-
-// c14DetAlloc: the local MarshalOptions value in al has Deterministic assigned the constant true
-// (and nothing else) before instruction m, and does not escape.
-func c14DetAlloc(al *ssa.Alloc, m ssa.Instruction, depth int) (bool, string) {
-	if depth > 3 {
-		return false, "marshal options copied through too many locals"
-	}
-	set := false
-	var whole []*ssa.Store
-	var fieldStores []*ssa.Store
-	for _, ref := range *al.Referrers() {
-		switch x := ref.(type) {
-		case *ssa.UnOp, *ssa.DebugRef:
-		case *ssa.Store:
-			if x.Addr != ssa.Value(al) {
-				return false, "marshal options escape before the call"
-			}
-			whole = append(whole, x)
-			if _, isK := x.Val.(*ssa.Const); isK {
-				continue
-			}
-			src, ok := x.Val.(*ssa.UnOp)
-			if !ok || src.Op != token.MUL {
-				return false, "marshal options are assigned a computed value"
-			}
-			b, ok := src.X.(*ssa.Alloc)
-			if !ok {
-				return false, "marshal options are copied from shared memory"
-			}
-			s, why := c14DetAlloc(b, x, depth+1)
-			if why != "" {
-				return false, why
-			}
-			set = set || s
-		case *ssa.FieldAddr:
-			_, name, _, _ := c14FieldSel(x)
-			for _, r2 := range *x.Referrers() {
-				st, ok := r2.(*ssa.Store)
+		agg := newC14Agg()
+		seq := map[string]bool{}
+		nSucc := 0
+		cMarsh, cPut, cRoot := name+" marshals deterministically", name+" hashes the deterministic bytes", name+" returns the hash root"
+		complete := symExplore(fn, symHooks{
+			Inline: c14InlineRepoIf(an.Any(c14IsProtoMarshal, c14IsHashStep)),
+			Before: func(x *symX, in ssa.Instruction) {
+				call, ok := in.(*ssa.Call)
 				if !ok {
-					if _, isLoad := r2.(*ssa.UnOp); isLoad {
-						continue
-					}
-					return false, "a field of the marshal options escapes"
+					return
 				}
-				if name != "Deterministic" {
+				switch {
+				case c14IsProtoMarshal(&call.Call):
+					st, why := c14DeterministicAt(x, call)
+					agg.add(cMarsh, call.Pos(), st, why)
+				case an.Static("github.com/ferranbt/fastssz.Hasher.PutBytes")(&call.Call) && len(call.Call.Args) == 2:
+					st, why := c14DetBytes(x, call.Call.Args[1], 0)
+					agg.add(cPut, call.Pos(), st, why)
+				}
+			},
+			Return: func(x *symX, ret *ssa.Return, res []symCV) {
+				if len(res) != 2 {
+					agg.add(cRoot, fn.Pos(), c14Unsure, "unexpected result arity")
+					return
+				}
+				root := res[0]
+				rc, isCall := root.v.(*ssa.Call)
+				isRoot := isCall && root.p == "#0" && an.Static("github.com/ferranbt/fastssz.Hasher.HashRoot")(&rc.Call)
+				switch x.NilCV(res[1]) {
+				case 1:
+					return // error return
+				case 0:
+					// `return hh.HashRoot()`: value and error of the same call handed on together
+					if !(isRoot && res[1] == (symCV{v: root.v, f: root.f, p: "#1"})) {
+						agg.add(cRoot, posOf(ret), c14Unsure, "cannot tell whether this return reports success")
+						return
+					}
+				default:
+					if !isRoot {
+						if isCall {
+							agg.add(cRoot, fn.Pos(), c14Unsure, "the returned hash is the result of "+an.CalleeName(&rc.Call)+", which was not explored")
+						} else {
+							agg.add(cRoot, fn.Pos(), c14Bad, "a successful return does not yield Hasher.HashRoot's result")
+						}
+						return
+					}
+					if x.CallOK(rc, root.f) != 1 {
+						agg.add(cRoot, fn.Pos(), c14Bad, "the hash root is returned as success although HashRoot may have failed")
+						return
+					}
+				}
+				agg.add(cRoot, fn.Pos(), c14OK, "")
+				nSucc++
+				var steps []string
+				nPut := 0
+				for _, ev := range x.Trace() {
+					if call, ok := ev.In.(*ssa.Call); ok && c14IsHashStep(&call.Call) {
+						steps = append(steps, an.CalleeName(&call.Call))
+						if call.Call.StaticCallee().Name() == "PutBytes" {
+							nPut++
+						}
+					}
+				}
+				if nPut == 0 {
+					agg.add(cPut, fn.Pos(), c14Bad, "a successful return hashes no bytes at all")
+				}
+				seq[strings.Join(steps, " → ")] = true
+			},
+		})
+		if !complete {
+			c.Bail("%s: path exploration exceeded its budget", name)
+		}
+		if nSucc == 0 {
+			agg.add(cRoot, fn.Pos(), c14Bad, "no successful return")
+		}
+		for _, k := range []string{cMarsh, cPut, cRoot} {
+			if !agg.has(k) {
+				agg.add(k, fn.Pos(), c14Unsure, "no instance found on any explored path")
+			}
+		}
+		agg.flush(c)
+		seqs = append(seqs, seq)
+	}
+	a, b := strings.Join(c14SortedKeys(seqs[0]), " | "), strings.Join(c14SortedKeys(seqs[1]), " | ")
+	c.Check("hashProto siblings agree (qbft, priority)", fns[1].Pos(), a == b,
+		"the two copies perform different hashing steps: "+a+"  vs  "+b)
+}
+
+// c14DeterministicAt: the call is proto.MarshalOptions.Marshal on an options value whose Deterministic field is the
+// constant true on this path (literal, local variable assigned field by field, result of an in-package helper).
+func c14DeterministicAt(x *symX, call *ssa.Call) (int, string) {
+	f := call.Call.StaticCallee()
+	if n := an.FuncName(f); n != c14ProtoMarshal && n != c14ProtoMarshal+"Append" {
+		return c14Bad, "marshals with " + n + ", whose map ordering is not deterministic"
+	}
+	st, ok := f.Signature.Recv().Type().Underlying().(*types.Struct)
+	if !ok || len(call.Call.Args) == 0 {
+		return c14Unsure, "unexpected receiver of " + an.FuncName(f)
+	}
+	idx := -1
+	for i := 0; i < st.NumFields(); i++ {
+		if st.Field(i).Name() == "Deterministic" {
+			idx = i
+		}
+	}
+	if idx < 0 {
+		return c14Unsure, "MarshalOptions has no Deterministic field"
+	}
+	opts := x.R(call.Call.Args[0])
+	d := x.st.project(opts, fmt.Sprintf(".%d", idx))
+	if k, ok := x.st.constOf(d); ok && k.Kind() == constant.Bool {
+		if constant.BoolVal(k) {
+			return c14OK, ""
+		}
+		return c14Bad, "Deterministic option is false"
+	}
+	if strings.HasPrefix(d.p, symZero) {
+		return c14Bad, "Deterministic option is not set"
+	}
+	if k, ok := opts.v.(*ssa.Const); ok && opts.p == "" && k.Value == nil {
+		return c14Bad, "Deterministic option is not set"
+	}
+	if g, ok := opts.v.(*ssa.Global); ok {
+		// an unexported package-level options variable that is only assigned by its initialiser
+		if k, ok := c14GlobalFieldConst(g, idx); ok {
+			if k.Kind() == constant.Bool && constant.BoolVal(k) {
+				return c14OK, ""
+			}
+			return c14Bad, "Deterministic option of the package-level marshal options is not true"
+		}
+	}
+	return c14Unsure, "cannot resolve the marshal options to a local literal (" + opts.String() + ")"
+}
+
+// c14GlobalFieldConst: field idx of the unexported package-level struct variable g has a constant value: g is
+// assigned only by the package initialiser (evaluated with the path explorer) and nothing else in the package writes
+// it or takes its address.
+func c14GlobalFieldConst(g *ssa.Global, idx int) (constant.Value, bool) {
+	if g.Pkg == nil || g.Object() == nil || g.Object().Exported() {
+		return nil, false
+	}
+	init := g.Pkg.Func("init")
+	if init == nil {
+		return nil, false
+	}
+	for _, fn := range an.PkgFuncs(g.Pkg) {
+		for _, in := range an.Instrs(fn, false) {
+			for _, op := range in.Operands(nil) {
+				if op == nil || *op != ssa.Value(g) {
 					continue
 				}
-				k, isK := st.Val.(*ssa.Const)
-				if !isK || k.Value == nil || k.Value.ExactString() != "true" {
-					return false, "Deterministic option is not the constant true"
+				switch y := in.(type) {
+				case *ssa.UnOp:
+					if y.Op != token.MUL {
+						return nil, false
+					}
+				case *ssa.FieldAddr:
+					for _, ref := range *y.Referrers() {
+						if _, isLoad := ref.(*ssa.UnOp); !isLoad {
+							return nil, false
+						}
+					}
+				case *ssa.DebugRef:
+				default:
+					return nil, false
 				}
-				if !an.Dominates(st, m) {
-					return false, "Deterministic is not assigned on every path before the call"
-				}
-				fieldStores = append(fieldStores, st)
-				set = true
 			}
+		}
+	}
+	var val constant.Value
+	n, bad := 0, false
+	gv := symCV{v: g}
+	complete := symExplore(init, symHooks{
+		Before: func(x *symX, in ssa.Instruction) {
+			st, ok := in.(*ssa.Store)
+			if !ok {
+				return
+			}
+			base, path, ok := x.st.addr(st.Addr, x.fr.id)
+			if !ok || base != gv {
+				return
+			}
+			want := fmt.Sprintf(".%d", idx)
+			var d symCV
+			switch {
+			case path == "":
+				d = x.st.project(x.R(st.Val), want)
+			case path == want:
+				d = x.R(st.Val)
+			default:
+				return
+			}
+			k, isK := x.st.constOf(d)
+			if !isK {
+				if strings.HasPrefix(d.p, symZero) {
+					k, isK = constant.MakeBool(false), true
+				}
+			}
+			if !isK || (val != nil && !constant.Compare(val, token.EQL, k)) {
+				bad = true
+				return
+			}
+			val = k
+			n++
+		},
+	})
+	if !complete || bad || n == 0 {
+		return nil, false
+	}
+	return val, true
+}
+
+// c14DetBytes: v is (a full copy of) the byte result of a protobuf Marshal call that is known to have succeeded on
+// this path. Deterministic-ness of that call is its own obligation.
+func c14DetBytes(x *symX, v ssa.Value, depth int) (int, string) {
+	return c14DetBytesCV(x, x.R(v), depth)
+}
+
+func c14DetBytesCV(x *symX, c symCV, depth int) (int, string) {
+	if depth > 6 {
+		return c14Unsure, "hashed bytes too indirect"
+	}
+	if call, ok := c.v.(*ssa.Call); ok && c.p == "#0" && c14IsProtoMarshal(&call.Call) {
+		switch x.CallOK(call, c.f) {
+		case 1:
+			return c14OK, ""
 		default:
-			return false, "marshal options escape before the call"
+			return c14Bad, "the bytes put into the hasher are the result of a Marshal call whose error is not known to be nil here"
 		}
 	}
-	for _, w := range whole {
-		for _, f := range fieldStores {
-			if !an.Dominates(w, f) {
-				return false, "marshal options are overwritten after Deterministic was set"
+	if c.p == "" {
+		switch y := c.v.(type) {
+		case *ssa.Slice:
+			// b[0:len(b)]
+			full := y.Max == nil
+			if y.Low != nil {
+				if k, ok := an.ConstInt(y.Low); !ok || k != 0 {
+					full = false
+				}
+			}
+			if y.High != nil {
+				hc, ok := y.High.(*ssa.Call)
+				if !ok || !c14IsBuiltin(hc, "len") || x.st.resolve(hc.Call.Args[0], c.f) != x.st.resolve(y.X, c.f) {
+					full = false
+				}
+			}
+			if !full {
+				return c14Bad, "only a part of the encoding is put into the hasher"
+			}
+			return c14DetBytesCV(x, x.st.resolve(y.X, c.f), depth+1)
+		case *ssa.Call:
+			// copies: bytes.Clone(b), slices.Clone(b), append([]byte(nil), b...)
+			if f := y.Call.StaticCallee(); f != nil {
+				n := an.FuncName(f)
+				if (n == "bytes.Clone" || strings.HasPrefix(n, "slices.Clone")) && len(y.Call.Args) == 1 {
+					return c14DetBytesCV(x, x.st.resolve(y.Call.Args[0], c.f), depth+1)
+				}
+			}
+			if c14IsBuiltin(y, "append") && len(y.Call.Args) == 2 {
+				if x.st.nilOf(y.Call.Args[0], c.f, 0) == -1 {
+					return c14DetBytesCV(x, x.st.resolve(y.Call.Args[1], c.f), depth+1)
+				}
 			}
 		}
 	}
-	return set, ""
+	// derived from an encoding in a way we do not understand?
+	if in, ok := c.v.(ssa.Instruction); ok && c.p == "" {
+		for _, op := range in.Operands(nil) {
+			if op == nil || *op == nil {
+				continue
+			}
+			oc := x.st.resolve(*op, c.f)
+			if call, ok := oc.v.(*ssa.Call); ok && c14IsProtoMarshal(&call.Call) {
+				return c14Unsure, "the hashed bytes are derived from the encoding in an unrecognised way"
+			}
+		}
+	}
+	if call, ok := c.v.(*ssa.Call); ok {
+		if f := call.Call.StaticCallee(); f == nil || f.Blocks != nil || c14InRepo(f) {
+			return c14Unsure, "the hashed bytes are produced by " + an.CalleeName(&call.Call) + ", which was not explored"
+		}
+	}
+	return c14Bad, "the bytes put into the hasher are not the checked result of a protobuf Marshal call"
 }
 
 // ---------------------------------------------------------------------------------------------
 // M4 panic recovery around peer-data decoding
+
+func c14IsRecover(cc *ssa.CallCommon) bool {
+	b, ok := cc.Value.(*ssa.Builtin)
+	return ok && b.Name() == "recover"
+}
+
+// c14ErrSlot: the named error result of fn, i.e. the local the panic-recovery exit returns.
+func c14ErrSlot(fn *ssa.Function) *ssa.Alloc {
+	if fn.Recover == nil {
+		return nil
+	}
+	for _, in := range fn.Recover.Instrs {
+		if r, ok := in.(*ssa.Return); ok && len(r.Results) > 0 {
+			if ld, ok := r.Results[len(r.Results)-1].(*ssa.UnOp); ok && ld.Op == token.MUL && an.IsErrorType(ld.Type()) {
+				if al, ok := ld.X.(*ssa.Alloc); ok {
+					return al
+				}
+			}
+		}
+	}
+	return nil
+}
+
+// c14RecoversInto decides whether the deferred call df converts a panic of fn into fn's error result: the deferred
+// function itself (closure or named function - recover() is only effective when called directly by it) calls
+// recover(), and on every path on which the recovered value may be non-nil it stores a non-nil error into the slot
+// (captured variable or pointer argument).
+func c14RecoversInto(fn *ssa.Function, df *ssa.Defer, slot *ssa.Alloc) (status int, armed bool, why string) {
+	callee := df.Call.StaticCallee()
+	if callee == nil || callee.Blocks == nil {
+		return c14Bad, false, "deferred call has no analysable static callee"
+	}
+	if len(an.Calls(callee, c14IsRecover, false)) == 0 {
+		return c14Bad, false, "the deferred function does not call recover() itself (recover is only effective when called directly by the deferred function)"
+	}
+	if slot == nil {
+		return c14Bad, true, "function has no named error result read on the panic-recovery exit"
+	}
+	// how the deferred function names the slot
+	var names []ssa.Value
+	if mc, ok := df.Call.Value.(*ssa.MakeClosure); ok {
+		for i, b := range mc.Bindings {
+			if b == ssa.Value(slot) && i < len(callee.FreeVars) {
+				names = append(names, callee.FreeVars[i])
+			}
+		}
+	}
+	for i, a := range df.Call.Args {
+		if a == ssa.Value(slot) && i < len(callee.Params) {
+			names = append(names, callee.Params[i])
+		}
+	}
+	if len(names) == 0 {
+		return c14Bad, true, "the deferred function neither captures nor receives the error result"
+	}
+	status, why = c14OK, ""
+	nPanicked := 0
+	complete := symExplore(callee, symHooks{
+		Inline: func(x *symX, site ssa.CallInstruction, g *ssa.Function) bool {
+			// helpers that are handed the recovered value and the slot
+			return c14SamePkg(g, callee) && g.Parent() != nil
+		},
+		Return: func(x *symX, ret *ssa.Return, res []symCV) {
+			// the recovered value on this path
+			panicked := int8(0)
+			seen := false
+			for _, ev := range x.Trace() {
+				if call, ok := ev.In.(*ssa.Call); ok && ev.Frame == 0 && c14IsRecover(&call.Call) {
+					seen = true
+					panicked = x.NilCV(symCV{v: call, f: 0})
+				}
+			}
+			if !seen || panicked == -1 {
+				return // no panic on this path
+			}
+			nPanicked++
+			stored := int8(-1)
+			for _, ev := range x.Trace() {
+				if _, isStore := ev.In.(*ssa.Store); !isStore || !ev.Addr || ev.Path != "" {
+					continue
+				}
+				for _, n := range names {
+					if ev.Base == (symCV{v: n}) {
+						stored = x.NilCV(ev.Val) // the last assignment on the path counts
+					}
+				}
+			}
+			switch stored {
+			case 1:
+			case 0:
+				if status < c14Unsure {
+					status, why = c14Unsure, "cannot tell whether the value assigned to the error result after a recovered panic is non-nil"
+				}
+			default:
+				status, why = c14Bad, "the recovered panic is not assigned to the error result on every path (a panic would be swallowed and a zero value returned as success)"
+			}
+		},
+	})
+	if !complete {
+		return c14Unsure, true, "path exploration exceeded its budget"
+	}
+	if nPanicked == 0 && status == c14OK {
+		return c14Bad, true, "no path of the deferred function handles a recovered panic"
+	}
+	return status, true, why
+}
 
 func c14M4(c *rt.Ctx) {
 	for _, it := range []struct{ fn, sink string }{
@@ -681,39 +1094,93 @@ func c14M4(c *rt.Ctx) {
 		{"core.UnsignedDataSetFromProto", "core.unmarshalUnsignedData"},
 	} {
 		fn := c.Fn(it.fn)
-		sinks := c.SomeCalls(fn, an.Static(it.sink), it.sink, false)
-		// the deferred recover closures that convert a panic into the error result
-		var recs, armed []*ssa.Defer
-		why := "no deferred function that recovers and assigns the error result"
+		isSink := an.Static(it.sink)
+		if !c14Contains(fn, isSink, 0, map[*ssa.Function]bool{}) {
+			c.Bail("no call to %s in %s (or its helpers)", it.sink, it.fn)
+		}
+		// a decoder that hands its whole job to one helper of the package (which then owns the deferred recover and
+		// the decode calls) is judged on that helper
+		root := fn
+		for hop := 0; hop < 2; hop++ {
+			hasDefer := false
+			for _, in := range an.Instrs(fn, false) {
+				if _, ok := in.(*ssa.Defer); ok {
+					hasDefer = true
+				}
+			}
+			if hasDefer || len(an.Calls(fn, isSink, false)) > 0 {
+				break
+			}
+			cands := map[*ssa.Function]bool{}
+			for _, ci := range an.Calls(fn, func(cc *ssa.CallCommon) bool {
+				g := cc.StaticCallee()
+				return g != nil && c14SamePkg(g, fn) && c14Contains(g, isSink, 0, map[*ssa.Function]bool{})
+			}, false) {
+				cands[ci.Common().StaticCallee()] = true
+			}
+			if len(cands) != 1 {
+				break
+			}
+			for g := range cands {
+				fn = g
+			}
+		}
+		slot := c14ErrSlot(fn)
+		good := map[*ssa.Defer]bool{}
+		armed := map[*ssa.Defer]bool{}
+		best, why := c14Bad, "no deferred function that recovers and assigns the error result"
 		for _, in := range an.Instrs(fn, false) {
 			df, ok := in.(*ssa.Defer)
 			if !ok {
 				continue
 			}
-			mc, ok := df.Call.Value.(*ssa.MakeClosure)
-			if !ok {
-				continue
+			st, arm, w := c14RecoversInto(fn, df, slot)
+			armed[df] = arm
+			if st == c14OK {
+				good[df] = true
 			}
-			if lit, isFn := mc.Fn.(*ssa.Function); isFn && len(an.Calls(lit, func(cc *ssa.CallCommon) bool { b, ok := cc.Value.(*ssa.Builtin); return ok && b.Name() == "recover" }, false)) > 0 {
-				armed = append(armed, df)
-			}
-			ok2, w := c14RecoverSetsErr(fn, mc)
-			if ok2 {
-				recs = append(recs, df)
-			} else {
-				why = w
+			if st <= best {
+				best, why = st, w
 			}
 		}
-		c.Check(it.fn+" recovers panics into its error result", fn.Pos(), len(recs) > 0, why)
-		for _, s := range sinks {
-			good := false
-			for _, d := range armed {
-				if an.Dominates(d, s) {
-					good = true
+		switch best {
+		case c14OK:
+			c.Good(it.fn+" recovers panics into its error result", root.Pos(), "")
+		case c14Unsure:
+			c.Unsure(it.fn+" recovers panics into its error result", root.Pos(), why)
+		default:
+			c.Bad(it.fn+" recovers panics into its error result", root.Pos(), why)
+		}
+		// every decode call (in the function or in a helper explored in place) runs after the recover was armed
+		agg := newC14Agg()
+		construct := it.fn + " recover armed before " + it.sink
+		complete := symExplore(fn, symHooks{
+			Inline: c14InlineIf(fn, isSink),
+			Before: func(x *symX, in ssa.Instruction) {
+				call, ok := in.(*ssa.Call)
+				if !ok || !isSink(&call.Call) {
+					return
 				}
-			}
-			c.Check(it.fn+" recover armed before "+it.sink, s.Pos(), good, "the decode call is not dominated by the deferred recover: a panicking decoder crashes the caller")
+				ok = false
+				for _, ev := range x.Trace() {
+					if df, isDf := ev.In.(*ssa.Defer); isDf && ev.Frame == 0 && armed[df] {
+						ok = true
+					}
+				}
+				if ok {
+					agg.addAt(construct, x.Chain(), call.Pos(), c14OK, "")
+				} else {
+					agg.addAt(construct, x.Chain(), call.Pos(), c14Bad, "the decode call is not preceded by the deferred recover on every path: a panicking decoder crashes the caller")
+				}
+			},
+		})
+		if !complete {
+			c.Unsure(construct, fn.Pos(), "path exploration exceeded its budget")
 		}
+		if len(agg.items) == 0 {
+			c.Unsure(construct, fn.Pos(), "no decode call reached on any explored path")
+		}
+		agg.flush(c)
 	}
 	// facts that make M3 a crash rule (recorded, not judged)
 	if fn := c.FnOpt("p2p.RegisterHandler"); fn != nil {
@@ -742,70 +1209,6 @@ func c14M4(c *rt.Ctx) {
 	}
 }
 
-// c14RecoverSetsErr: the closure calls recover(), branches on `!= nil` and on that edge stores a
-// non-nil value into the captured error result of fn (the slot the recover exit returns).
-func c14RecoverSetsErr(fn *ssa.Function, mc *ssa.MakeClosure) (bool, string) {
-	lit, ok := mc.Fn.(*ssa.Function)
-	if !ok {
-		return false, "deferred value is not a function literal"
-	}
-	// the error slot: the alloc read by fn's recover block as its error result
-	var slot ssa.Value
-	if fn.Recover != nil {
-		for _, in := range fn.Recover.Instrs {
-			if r, ok := in.(*ssa.Return); ok && len(r.Results) > 0 {
-				if ld, ok := r.Results[len(r.Results)-1].(*ssa.UnOp); ok && ld.Op == token.MUL && an.IsErrorType(ld.Type()) {
-					slot = ld.X
-				}
-			}
-		}
-	}
-	if slot == nil {
-		return false, "function has no named error result read on the panic-recovery exit"
-	}
-	fvIdx := -1
-	for i, b := range mc.Bindings {
-		if b == slot {
-			fvIdx = i
-		}
-	}
-	if fvIdx < 0 {
-		return false, "deferred closure does not capture the error result"
-	}
-	fv := lit.FreeVars[fvIdx]
-	recs := an.Calls(lit, func(cc *ssa.CallCommon) bool { b, ok := cc.Value.(*ssa.Builtin); return ok && b.Name() == "recover" }, false)
-	if len(recs) == 0 {
-		return false, "deferred closure does not call recover()"
-	}
-	for _, rc := range recs {
-		rv := rc.Value()
-		if rv == nil {
-			continue
-		}
-		for _, cd := range an.CondsOn(lit, rv) {
-			if cd.Other == nil || !an.IsNilConst(cd.Other) || (cd.Op != token.EQL && cd.Op != token.NEQ) {
-				continue
-			}
-			panicked := cd.Succ(cd.Op == token.NEQ)
-			other := cd.Succ(cd.Op != token.NEQ)
-			if panicked == other {
-				continue
-			}
-			// on the panicked edge every path to the closure's exit assigns a non-nil error
-			_, esc := an.EscapePath(cd.If, func(in ssa.Instruction) bool {
-				st, ok := in.(*ssa.Store)
-				return ok && st.Addr == ssa.Value(fv) && !c14IsNil(st.Val)
-			}, an.PassOpt{PanicIsExit: false, Prune: func(b *ssa.BasicBlock, succ int) bool {
-				return b == cd.If.Block() && b.Succs[succ] == other
-			}})
-			if !esc {
-				return true, ""
-			}
-		}
-	}
-	return false, "the recovered panic is not assigned to the error result (a panic would be swallowed and a zero value returned as success)"
-}
-
 // ---------------------------------------------------------------------------------------------
 // M5 Clone is encode∘decode of the receiver into a fresh value
 
@@ -832,261 +1235,453 @@ func c14M5(c *rt.Ctx) {
 					}
 					continue
 				}
-				ok, why := c14CloneOK(fn)
-				c.Check(tn+"."+m+" returns a fresh re-decoded copy", fn.Pos(), ok, why)
+				st, why := c14CloneOK(fn)
+				construct := tn + "." + m + " returns a fresh re-decoded copy"
+				switch st {
+				case c14OK:
+					c.Good(construct, fn.Pos(), "")
+				case c14Unsure:
+					c.Unsure(construct, fn.Pos(), why)
+				default:
+					c.Bad(construct, fn.Pos(), why)
+				}
 			}
 		}
 	}
 }
 
-// c14CloneHelper checks clone{SSZ,JSON}Marshaler: bytes := data.Marshal(); decode(bytes) into v; both
-// errors checked before the nil return.
+var c14IsCodec = an.Static("core.cloneSSZMarshaler", "core.cloneJSONMarshaler")
+
+// c14CloneHelper checks clone{SSZ,JSON}Marshaler on every path: a successful return is only reached after the source
+// parameter was encoded, exactly those bytes were decoded into the target parameter, and both calls succeeded.
 func c14CloneHelper(c *rt.Ctx, name, enc string, dec an.Matcher, bytesArg int) {
 	fn := c.Fn(name)
 	if len(fn.Params) != 2 {
 		c.Bail("%s: unexpected signature", name)
 	}
-	var encCall, decCall ssa.CallInstruction
-	for _, ci := range an.Calls(fn, func(cc *ssa.CallCommon) bool {
-		return cc.IsInvoke() && cc.Method.Name() == enc && cc.Value == ssa.Value(fn.Params[0])
-	}, false) {
-		encCall = ci
-	}
-	why := ""
-	good := encCall != nil
-	if !good {
-		why = "the source is not encoded with " + enc
-	}
-	if good {
-		for _, ci := range an.Calls(fn, dec, false) {
-			args := ci.Common().Args
-			if len(args) <= bytesArg {
-				continue
-			}
-			ex, ok := args[bytesArg].(*ssa.Extract)
-			if !ok || ex.Index != 0 || ex.Tuple != encCall.Value() {
-				continue
-			}
-			// the decode target is parameter v
-			target := ci.Common().Value
-			if !ci.Common().IsInvoke() {
-				target = args[len(args)-1]
-			}
-			if an.Unwrap(target) == ssa.Value(fn.Params[1]) {
-				decCall = ci
-			}
-		}
-		if decCall == nil {
-			good, why = false, "the encoded bytes of the source are not decoded into the target"
+	status, why := c14OK, ""
+	worse := func(st int, w string) {
+		if st > status {
+			status, why = st, w
 		}
 	}
-	if good {
-		n := 0
-		for _, r := range c14Returns(fn) {
-			if e := c14ErrOf(r); e == nil || !c14IsNil(e) {
-				continue
+	nSucc := 0
+	complete := symExplore(fn, symHooks{
+		Inline: func(x *symX, site ssa.CallInstruction, callee *ssa.Function) bool {
+			return c14SamePkg(callee, fn) && (callee.Parent() != nil || c14Contains(callee, dec, 0, map[*ssa.Function]bool{}))
+		},
+		Return: func(x *symX, ret *ssa.Return, res []symCV) {
+			if len(res) != 1 {
+				worse(c14Unsure, "unexpected results")
+				return
 			}
-			n++
-			for _, g := range []ssa.CallInstruction{encCall, decCall} {
-				if ok, w := an.Guarded(g, r, an.DefaultGuard); !ok {
-					good, why = false, "nil is returned although "+an.CalleeName(g.Common())+" may have failed: "+w
+			src, dst := x.st.resolve(fn.Params[0], 0), x.st.resolve(fn.Params[1], 0)
+			// the encode and decode calls executed on this path
+			var encEv, decEv *symEvent
+			tr := x.Trace()
+			for i := range tr {
+				ev := &tr[i]
+				call, ok := ev.In.(*ssa.Call)
+				if !ok {
+					continue
+				}
+				if call.Call.IsInvoke() && call.Call.Method.Name() == enc && ev.Recv == src {
+					encEv = ev
+				}
+				if dec(&call.Call) {
+					decEv = ev
 				}
 			}
-		}
-		if n == 0 {
-			good, why = false, "no successful return"
-		}
-	}
-	c.Check(name+" is encode∘decode", fn.Pos(), good, why)
-}
-
-// c14CloneOK decides one Clone/clone method.
-func c14CloneOK(fn *ssa.Function) (bool, string) {
-	if len(fn.Params) == 0 {
-		return false, "no receiver"
-	}
-	recv := fn.Params[0]
-	nSucc := 0
-	for _, r := range c14Returns(fn) {
-		vals := c14RetVals(r)
-		if len(vals) == 0 {
-			return false, "returns nothing"
-		}
-		e := c14ErrOf(r)
-		if e != nil && !c14IsNil(e) {
-			// error return, or delegation `return x.clone()`
-			if ex, ok := e.(*ssa.Extract); ok {
-				if call, ok := ex.Tuple.(*ssa.Call); ok && c14IsCloneOfRecv(call, recv) {
-					if v0, ok := an.Unwrap(vals[0]).(*ssa.Extract); ok && v0.Tuple == ex.Tuple && v0.Index == 0 {
-						nSucc++ // `return x.clone()`: value and error of the delegate passed on together
+			errc := res[0]
+			switch x.NilCV(errc) {
+			case 1:
+				return // failure
+			case 0:
+				// `return v.UnmarshalSSZ(bytes)`: the decode error is handed on
+				ok := false
+				if decEv != nil {
+					if e, has := symErrOf(decEv.In.(*ssa.Call), decEv.Frame, x.st); has && e == errc {
+						ok = true
 					}
 				}
+				if !ok {
+					worse(c14Unsure, "cannot tell whether a return reports success")
+					return
+				}
 			}
-			continue // error return: the value is not used
-		}
-		nSucc++
-		if ok, why := c14Fresh(fn, recv, vals[0], r, 0); !ok {
-			return false, why
-		}
+			nSucc++
+			if encEv == nil {
+				worse(c14Bad, "nil is returned on a path on which the source was not encoded with "+enc)
+				return
+			}
+			if decEv == nil {
+				worse(c14Bad, "nil is returned on a path on which nothing was decoded into the target")
+				return
+			}
+			encCall, decCall := encEv.In.(*ssa.Call), decEv.In.(*ssa.Call)
+			if x.CallOK(encCall, encEv.Frame) != 1 {
+				worse(c14Bad, "nil is returned although "+an.CalleeName(&encCall.Call)+" may have failed")
+			}
+			if x.NilCV(errc) == -1 && x.CallOK(decCall, decEv.Frame) != 1 {
+				worse(c14Bad, "nil is returned although "+an.CalleeName(&decCall.Call)+" may have failed")
+			}
+			want := symCV{v: encCall, f: encEv.Frame, p: "#0"}
+			if len(decEv.Args) <= bytesArg || want != decEv.Args[bytesArg] {
+				worse(c14Bad, "the encoded bytes of the source are not what is decoded into the target")
+			}
+			target := decEv.Recv
+			if !decCall.Call.IsInvoke() && len(decEv.Args) > 0 {
+				target = decEv.Args[len(decEv.Args)-1]
+			}
+			if x.UnboxCV(target) != dst && target != dst {
+				worse(c14Bad, "the bytes are not decoded into the target parameter")
+			}
+		},
+	})
+	if !complete {
+		worse(c14Unsure, "path exploration exceeded its budget")
 	}
 	if nSucc == 0 {
-		return false, "no successful return"
+		worse(c14Bad, "no successful return")
 	}
-	return true, ""
+	switch status {
+	case c14OK:
+		c.Good(name+" is encode∘decode", fn.Pos(), "")
+	case c14Unsure:
+		c.Unsure(name+" is encode∘decode", fn.Pos(), why)
+	default:
+		c.Bad(name+" is encode∘decode", fn.Pos(), why)
+	}
 }
 
-func c14IsCloneOfRecv(call *ssa.Call, recv *ssa.Parameter) bool {
-	f := call.Call.StaticCallee()
-	if f == nil || (f.Name() != "clone" && f.Name() != "Clone") || len(call.Call.Args) == 0 || call.Call.Args[0] != ssa.Value(recv) {
-		return false
+// c14CloneOK decides one Clone/clone method: on every path to a successful return the returned value is a fresh
+// copy of the receiver (c14FreshCV). Helpers and sibling clone methods of the package are explored in place.
+func c14CloneOK(fn *ssa.Function) (int, string) {
+	if len(fn.Params) == 0 {
+		return c14Bad, "no receiver"
 	}
-	sig := f.Signature
-	return sig.Recv() != nil && an.TypeName(sig.Recv().Type()) == an.TypeName(recv.Type())
-}
-
-// c14Fresh: v (returned by ret on success) is a fresh copy of recv.
-func c14Fresh(fn *ssa.Function, recv *ssa.Parameter, v ssa.Value, ret *ssa.Return, depth int) (bool, string) {
-	if depth > 6 {
-		return false, "returned value too indirect"
-	}
-	switch x := v.(type) {
-	case *ssa.MakeInterface:
-		return c14Fresh(fn, recv, x.X, ret, depth+1)
-	case *ssa.ChangeType:
-		return c14Fresh(fn, recv, x.X, ret, depth+1)
-	case *ssa.Parameter:
-		return false, "returns the receiver itself, not a copy"
-	case *ssa.Call:
-		if c14IsCloneOfRecv(x, recv) {
-			return true, ""
+	recv := fn.Params[0]
+	status, why := c14OK, ""
+	worse := func(st int, w string) {
+		if st > status {
+			status, why = st, w
 		}
-		return false, "returned value is the result of " + an.CalleeName(&x.Call) + ", not a re-decoded copy"
-	case *ssa.Extract:
-		if call, ok := x.Tuple.(*ssa.Call); ok && x.Index == 0 && c14IsCloneOfRecv(call, recv) {
-			if ok, w := an.Guarded(call, ret, an.DefaultGuard); !ok {
-				return false, "delegate clone's error is not checked: " + w
+	}
+	nSucc := 0
+	isCloneCall := func(cc *ssa.CallCommon) bool {
+		f := cc.StaticCallee()
+		return f != nil && (f.Name() == "Clone" || f.Name() == "clone") && f.Signature.Recv() != nil
+	}
+	complete := symExplore(fn, symHooks{
+		MaxDepth: 5,
+		Inline: func(x *symX, site ssa.CallInstruction, callee *ssa.Function) bool {
+			if !c14SamePkg(callee, fn) || c14IsCodec(site.Common()) {
+				return false
 			}
-			return true, ""
-		}
-		return false, "returned value is not produced by cloning the receiver"
-	case *ssa.UnOp:
-		if x.Op != token.MUL {
-			break
-		}
-		al, ok := x.X.(*ssa.Alloc)
-		if !ok {
-			return false, "returned value is loaded from shared memory"
-		}
-		if an.TypeName(al.Type()) != an.TypeName(recv.Type()) {
-			return false, "fresh value has another type than the receiver"
-		}
-		var codec *ssa.Call
-		for _, ref := range *al.Referrers() {
-			switch y := ref.(type) {
-			case *ssa.MakeInterface:
-				for _, r2 := range *y.Referrers() {
-					call, ok := r2.(*ssa.Call)
-					if !ok || !an.Static("core.cloneSSZMarshaler", "core.cloneJSONMarshaler")(&call.Call) {
-						return false, "fresh value escapes to " + fmt.Sprint(r2)
-					}
-					if call.Call.Args[1] != ssa.Value(y) {
-						return false, "fresh value is used as the clone source"
-					}
-					mi, ok := call.Call.Args[0].(*ssa.MakeInterface)
-					if !ok || mi.X != ssa.Value(recv) {
-						return false, "the value encoded by " + an.CalleeName(&call.Call) + " is not the receiver"
-					}
-					codec = call
+			if callee.Parent() != nil {
+				return true
+			}
+			// helpers and delegate clone methods applied to the receiver itself
+			if isCloneCall(site.Common()) {
+				return len(site.Common().Args) > 0 && x.Unbox(site.Common().Args[0]) == x.st.resolve(recv, 0)
+			}
+			return c14Contains(callee, c14IsCodec, 0, map[*ssa.Function]bool{})
+		},
+		Return: func(x *symX, ret *ssa.Return, res []symCV) {
+			if len(res) == 0 {
+				worse(c14Bad, "returns nothing")
+				return
+			}
+			last := res[len(res)-1]
+			if an.IsErrorType(ret.Results[len(res)-1].Type()) {
+				switch x.NilCV(last) {
+				case 1:
+					return
+				case 0:
+					worse(c14Unsure, "cannot tell whether a return reports success")
+					return
 				}
-			case *ssa.UnOp:
-			case *ssa.Store:
-				return false, "fresh value is assigned outside the codec"
-			case *ssa.FieldAddr:
-				return false, "fresh value is modified field by field"
+			}
+			nSucc++
+			st, w := c14FreshCV(x, res[0], x.st.resolve(recv, 0), recv.Type(), 0)
+			worse(st, w)
+		},
+	})
+	if !complete {
+		worse(c14Unsure, "path exploration exceeded its budget")
+	}
+	if nSucc == 0 {
+		worse(c14Bad, "no successful return")
+	}
+	return status, why
+}
+
+func c14BaseOf(c symCV) symCV { return symCV{v: c.v, f: c.f} }
+
+// c14FreshCV: the value returned on this path is a fresh copy of the receiver:
+//   - the content of a local of the receiver's type that was filled by a successful cloneSSZMarshaler/cloneJSONMarshaler
+//     call from the receiver and not assigned afterwards;
+//   - a make([]byte, len(recv)) buffer filled with copy(buf, recv);
+//   - an initially empty slice grown by append(acc, e) where every e is the checked Clone() of an element of the receiver.
+func c14FreshCV(x *symX, c, recv symCV, recvType types.Type, depth int) (int, string) {
+	if depth > 6 {
+		return c14Unsure, "returned value too indirect"
+	}
+	c = x.UnboxCV(c)
+	if c.v == nil {
+		return c14Unsure, "returned value not resolved"
+	}
+	if c.v == recv.v && c.f == recv.f {
+		if c.p == "" {
+			return c14Bad, "returns the receiver itself, not a copy"
+		}
+		return c14Bad, "returns a part of the receiver, not a copy"
+	}
+	tr := x.Trace()
+	if al, ok := c.v.(*ssa.Alloc); ok && c.p != "" {
+		if strings.HasPrefix(c.p, symZero) {
+			return c14Bad, "returned local is never filled by cloneSSZMarshaler/cloneJSONMarshaler"
+		}
+		if !strings.HasPrefix(c.p, "@") || strings.ContainsAny(c.p[1:], ".[") {
+			return c14Unsure, "returned value is a component of a local"
+		}
+		return c14FilledByCodec(x, c14BaseOf(c), al, recv, recvType)
+	}
+	if ld, ok := c.v.(*ssa.UnOp); ok && c.p == "" && ld.Op == token.MUL {
+		// a local aggregate some of whose components were assigned individually
+		if base, path, ok := x.st.addr(ld.X, c.f); ok && path == "" {
+			if al, isAlloc := base.v.(*ssa.Alloc); isAlloc && base.p == "" {
+				return c14FilledByCodec(x, base, al, recv, recvType)
 			}
 		}
-		if codec == nil {
-			return false, "returned local is never filled by cloneSSZMarshaler/cloneJSONMarshaler"
+	}
+	if c.p != "" {
+		if call, ok := c.v.(*ssa.Call); ok {
+			return c14Unsure, "returned value is a result of " + an.CalleeName(&call.Call) + ", which was not explored"
 		}
-		if ok, w := an.Guarded(codec, ret, an.DefaultGuard); !ok {
-			return false, "the copy is returned although the codec may have failed: " + w
+		return c14Bad, "returned value is loaded from shared memory, not a re-decoded copy"
+	}
+	// the event that produced a call value (arguments as of its execution)
+	evOf := func(v ssa.Value, f int) *symEvent {
+		for i := len(tr) - 1; i >= 0; i-- {
+			if tr[i].In == v.(ssa.Instruction) && tr[i].Frame == f {
+				return &tr[i]
+			}
 		}
-		return true, ""
+		return nil
+	}
+	switch y := c.v.(type) {
 	case *ssa.MakeSlice:
 		// explicit byte copy: make(len(recv)) + copy(dst, recv)
-		if l, ok := x.Len.(*ssa.Call); !ok || !c14IsBuiltin(l, "len") || l.Call.Args[0] != ssa.Value(recv) {
-			return false, "copy buffer is not sized len(receiver)"
-		}
-		for _, ref := range *x.Referrers() {
-			if call, ok := ref.(*ssa.Call); ok && c14IsBuiltin(call, "copy") && call.Call.Args[0] == ssa.Value(x) && call.Call.Args[1] == ssa.Value(recv) && an.Dominates(call, ret) {
-				return true, ""
+		lc := x.st.resolve(y.Len, c.f)
+		l, ok := lc.v.(*ssa.Call)
+		if n, isK := x.st.constOf(lc); isK {
+			if v, exact := constant.Int64Val(n); exact && v == 0 {
+				return c14OK, "" // empty slice: shares nothing
 			}
 		}
-		return false, "fresh buffer is never filled with copy(buf, receiver)"
-	case *ssa.Phi:
-		// element-wise: make(T, 0, ..) grown by append(acc, clone-of-element)
-		for _, e := range x.Edges {
-			switch y := e.(type) {
-			case *ssa.MakeSlice:
-				if n, ok := an.ConstInt(y.Len); !ok || n != 0 {
-					return false, "element-wise clone starts from a non-empty slice"
+		if !ok || lc.p != "" || !c14IsBuiltin(l, "len") || x.st.resolve(l.Call.Args[0], lc.f) != recv {
+			for _, ev := range tr {
+				if call, ok := ev.In.(*ssa.Call); ok && c14IsBuiltin(call, "copy") && len(ev.Args) == 2 && ev.Args[0] == c && ev.Args[1] == recv {
+					return c14Unsure, "copy buffer is not recognisably sized len(receiver)"
 				}
-			case *ssa.Call:
-				if !c14IsBuiltin(y, "append") || y.Call.Args[0] != ssa.Value(x) {
-					return false, "element-wise clone: accumulator is not append(acc, …)"
-				}
-				elems := appendedElems(y)
-				if len(elems) != 1 {
-					return false, "element-wise clone: cannot resolve the appended element"
-				}
-				l := an.InnermostLoop(fn, y.Block())
-				if l == nil || an.Unwrap(l.RangeColl()) != ssa.Value(recv) {
-					return false, "element-wise clone does not range over the receiver"
-				}
-				if !c14ElemClone(elems[0], l) {
-					return false, "appended element is not the checked Clone() of the receiver's element"
-				}
-			default:
-				return false, "element-wise clone: unexpected accumulator source"
+			}
+			return c14Bad, "copy buffer is not sized len(receiver)"
+		}
+		for _, ev := range tr {
+			if call, ok := ev.In.(*ssa.Call); ok && c14IsBuiltin(call, "copy") && len(ev.Args) == 2 && ev.Args[0] == c && ev.Args[1] == recv {
+				return c14OK, ""
 			}
 		}
-		return true, ""
+		for _, ev := range tr {
+			st, isStore := ev.In.(*ssa.Store)
+			if !isStore || !ev.Addr || ev.Base != c {
+				continue
+			}
+			// `for i := range recv { buf[i] = recv[i] }`: a loop over the receiver that cannot be left early
+			if ev.Val.v == recv.v && ev.Val.f == recv.f && ev.Path != "" && strings.HasSuffix(ev.Val.p, ev.Path) {
+				if l := an.InnermostLoop(st.Parent(), st.Block()); l != nil && an.LoopEarlyExit(l) == nil {
+					if rc := l.RangeColl(); rc != nil && x.st.resolve(rc, ev.Frame) == recv {
+						return c14OK, ""
+					}
+				}
+			}
+			return c14Unsure, "fresh buffer is filled element by element; cannot tell whether every element of the receiver is copied"
+		}
+		// a buffer that is filled element by element somewhere, on a path on which that loop did not run
+		for _, ref := range *y.Referrers() {
+			if ia, ok := ref.(*ssa.IndexAddr); ok {
+				for _, r2 := range *ia.Referrers() {
+					if st, ok := r2.(*ssa.Store); ok && st.Addr == ssa.Value(ia) {
+						return c14OK, ""
+					}
+				}
+			}
+		}
+		return c14Bad, "fresh buffer is never filled with copy(buf, receiver)"
+	case *ssa.Call:
+		if c14IsBuiltin(y, "append") {
+			ev := evOf(y, c.f)
+			if ev == nil || len(ev.Args) != 2 {
+				return c14Unsure, "append not found on the path"
+			}
+			if ev.Elems == nil {
+				// append([]byte(nil), recv...): a copy when the elements are plain values
+				if sl, ok := y.Type().Underlying().(*types.Slice); ok {
+					if _, basic := sl.Elem().Underlying().(*types.Basic); basic && ev.Args[1] == recv {
+						if st, w := c14FreshCV(x, ev.Args[0], recv, recvType, depth+1); st != c14OK && x.NilCV(ev.Args[0]) != -1 {
+							return st, w
+						}
+						return c14OK, ""
+					}
+				}
+				return c14Bad, "element-wise clone: a whole slice is appended"
+			}
+			for _, e := range ev.Elems {
+				if !c14ElemCloneCV(x, e, recv) {
+					return c14Bad, "appended element is not the checked Clone() of the receiver's element"
+				}
+			}
+			acc := ev.Args[0]
+			if x.NilCV(acc) == -1 {
+				return c14OK, ""
+			}
+			if acc == c {
+				return c14OK, "" // accumulator of an earlier iteration of the same statement
+			}
+			return c14FreshCV(x, acc, recv, recvType, depth+1)
+		}
+		if f := y.Call.StaticCallee(); f != nil {
+			n := an.FuncName(f)
+			if (n == "bytes.Clone" || strings.HasPrefix(n, "slices.Clone")) && len(y.Call.Args) == 1 {
+				if sl, ok := y.Call.Args[0].Type().Underlying().(*types.Slice); ok {
+					if _, basic := sl.Elem().Underlying().(*types.Basic); basic && x.st.resolve(y.Call.Args[0], c.f) == recv {
+						return c14OK, "" // a copy of a slice of plain values
+					}
+				}
+			}
+		}
+		return c14Unsure, "returned value is the result of " + an.CalleeName(&y.Call) + ", which was not explored"
+	case *ssa.Const:
+		if symIsNilConst(y) {
+			return c14OK, "" // nil shares nothing (a nil receiver slice clones to nil)
+		}
+		return c14Bad, "returns a constant / zero value as the clone"
+	case *ssa.Parameter:
+		return c14Bad, "returns a parameter, not a copy"
 	}
-	return false, fmt.Sprintf("returned value (%T) is not recognisably a fresh copy", v)
+	return c14Unsure, fmt.Sprintf("returned value (%T) is not recognisably a fresh copy", c.v)
+}
+
+// c14FilledByCodec: the local `base` (of the receiver's type) was filled from the receiver by a successful codec call
+// on this path and not assigned afterwards.
+func c14FilledByCodec(x *symX, base symCV, al *ssa.Alloc, recv symCV, recvType types.Type) (int, string) {
+	tr := x.Trace()
+	if an.TypeName(al.Type()) != an.TypeName(recvType) {
+		return c14Bad, "fresh value has another type than the receiver"
+	}
+	codecAt := -1
+	var codec *ssa.Call
+	for i, ev := range tr {
+		call, ok := ev.In.(*ssa.Call)
+		if !ok || !c14IsCodec(&call.Call) || len(ev.Args) != 2 {
+			continue
+		}
+		if x.UnboxCV(ev.Args[1]) != base {
+			if x.UnboxCV(ev.Args[0]) == base || c14BaseOf(x.UnboxCV(ev.Args[0])) == base {
+				return c14Bad, "fresh value is used as the clone source"
+			}
+			continue
+		}
+		src := x.UnboxCV(ev.Args[0])
+		if src != recv && !c14IsSpillOf(x, src, recv) {
+			return c14Bad, "the value encoded by " + an.CalleeName(&call.Call) + " is not the receiver"
+		}
+		codecAt, codec = i, call
+		if x.CallOK(call, ev.Frame) != 1 {
+			return c14Bad, "the copy is returned although the codec may have failed"
+		}
+	}
+	if codec == nil {
+		// handed to some other decoder?
+		for _, ev := range tr {
+			call, ok := ev.In.(*ssa.Call)
+			if !ok {
+				continue
+			}
+			for _, a := range ev.Args {
+				if x.UnboxCV(a) == base {
+					return c14Unsure, "returned local is filled by " + an.CalleeName(&call.Call) + ", not by cloneSSZMarshaler/cloneJSONMarshaler"
+				}
+			}
+			if ev.Recv.v != nil && x.UnboxCV(ev.Recv) == base {
+				return c14Unsure, "returned local is filled by " + an.CalleeName(&call.Call) + ", not by cloneSSZMarshaler/cloneJSONMarshaler"
+			}
+		}
+		return c14Bad, "returned local is never filled by cloneSSZMarshaler/cloneJSONMarshaler"
+	}
+	for i, ev := range tr {
+		if _, isStore := ev.In.(*ssa.Store); !isStore || !ev.Addr || ev.Base != base {
+			continue
+		}
+		if c14BaseOf(ev.Val) == base && ev.Path == "" {
+			continue // `resp = resp`: named results are re-assigned by `return resp, nil`
+		}
+		if i > codecAt {
+			if ev.Path != "" {
+				return c14Bad, "fresh value is modified field by field"
+			}
+			return c14Bad, "fresh value is assigned outside the codec"
+		}
+	}
+	return c14OK, ""
+}
+
+// c14IsSpillOf: c is the address of a local that holds nothing but a copy of the receiver parameter (`&p`).
+func c14IsSpillOf(x *symX, c, recv symCV) bool {
+	al, ok := c.v.(*ssa.Alloc)
+	if !ok || c.p != "" {
+		return false
+	}
+	src := an.UniqueStore(al)
+	return src != nil && x.st.resolve(src, c.f) == recv
+}
+
+// c14ElemCloneCV: e is (a checked type assertion of) the successful Clone() of a component of the receiver.
+func c14ElemCloneCV(x *symX, e, recv symCV) bool {
+	for i := 0; i < 6; i++ {
+		e = x.UnboxCV(e)
+		switch y := e.v.(type) {
+		case *ssa.TypeAssert:
+			if e.p != "" && e.p != "#0" {
+				return false
+			}
+			e = x.st.resolve(y.X, e.f)
+			continue
+		case *ssa.Call:
+			f := y.Call.StaticCallee()
+			if f == nil || (f.Name() != "Clone" && f.Name() != "clone") || (e.p != "" && e.p != "#0") {
+				return false
+			}
+			if x.CallOK(y, e.f) != 1 {
+				return false
+			}
+			for _, ev := range x.Trace() {
+				if ev.In == ssa.Instruction(y) && ev.Frame == e.f && len(ev.Args) > 0 {
+					a := ev.Args[0]
+					return a.v == recv.v && a.f == recv.f && a.p != ""
+				}
+			}
+			return false
+		}
+		return false
+	}
+	return false
 }
 
 func c14IsBuiltin(call *ssa.Call, name string) bool {
 	b, ok := call.Call.Value.(*ssa.Builtin)
 	return ok && b.Name() == name
-}
-
-// c14ElemClone: v is (a checked type assertion of) element.Clone() for the loop's range element.
-func c14ElemClone(v ssa.Value, l *an.Loop) bool {
-	for i := 0; i < 6; i++ {
-		switch x := v.(type) {
-		case *ssa.Extract:
-			if x.Index != 0 {
-				return false
-			}
-			switch t := x.Tuple.(type) {
-			case *ssa.TypeAssert:
-				v = t.X
-				continue
-			case *ssa.Call:
-				f := t.Call.StaticCallee()
-				if f == nil || (f.Name() != "Clone" && f.Name() != "clone") || len(t.Call.Args) == 0 {
-					return false
-				}
-				return l.ElemOf(t.Call.Args[0])
-			}
-			return false
-		case *ssa.TypeAssert:
-			v = x.X
-			continue
-		}
-		return false
-	}
-	return false
 }
 
 // ---------------------------------------------------------------------------------------------
@@ -1215,69 +1810,184 @@ func c14WrapFuncs(c *rt.Ctx, w c14Wrap) []*ssa.Function {
 // ---------------------------------------------------------------------------------------------
 // M6 version-switch agreement
 
-type c14VerCase struct {
-	c14Cmp
-	Short string
+// c14VersionConst: v is a constant of a version type with the same type name as the wrapper's
+// (go-eth2-client spec.DataVersion and charon's eth2util.DataVersion share constant names).
+func c14VersionConst(v ssa.Value, w c14Wrap) (string, bool) {
+	k, ok := v.(*ssa.Const)
+	if !ok || k.Value == nil {
+		return "", false
+	}
+	nt := c14Named(k.Type())
+	if nt == nil || nt.Obj().Name() != w.VT.Obj().Name() {
+		return "", false
+	}
+	return c14VersionShort(nt, k), true
 }
 
-// c14VersionCases: comparisons of fn against constants of a version type with the same type name as
-// the wrapper's (go-eth2-client spec.DataVersion and charon's eth2util.DataVersion share constant names).
-func c14VersionCases(fn *ssa.Function, w c14Wrap) []c14VerCase {
-	var out []c14VerCase
-	for _, cm := range c14Cmps(fn) {
-		nt := c14Named(cm.K.Type())
-		if nt == nil || nt.Obj().Name() != w.VT.Obj().Name() {
-			continue
-		}
-		out = append(out, c14VerCase{cm, c14VersionShort(nt, cm.K)})
-	}
-	return out
+func c14IsVersionTyped(v ssa.Value, w c14Wrap) bool {
+	nt := c14Named(v.Type())
+	return nt != nil && nt.Obj().Name() == w.VT.Obj().Name()
 }
 
-type c14BoolBranch struct{ T, F *ssa.BasicBlock }
-
-// c14BlindedBranches: branches on a `Blinded` bool field or on a bool parameter (possibly negated).
-func c14BlindedBranches(fn *ssa.Function) []c14BoolBranch {
-	var out []c14BoolBranch
-	for _, b := range fn.Blocks {
-		if len(b.Instrs) == 0 {
-			continue
-		}
-		iff, ok := b.Instrs[len(b.Instrs)-1].(*ssa.If)
-		if !ok {
-			continue
-		}
-		cond, neg := iff.Cond, false
-		for {
-			u, ok := cond.(*ssa.UnOp)
-			if !ok || u.Op != token.NOT {
-				break
+// c14HasVersionCmp: fn compares a value with a version constant in its own body.
+func c14HasVersionCmp(fn *ssa.Function, w c14Wrap) bool {
+	for _, in := range an.Instrs(fn, false) {
+		if b, ok := in.(*ssa.BinOp); ok && (b.Op == token.EQL || b.Op == token.NEQ) {
+			if _, ok := c14VersionConst(b.X, w); ok {
+				return true
 			}
-			cond, neg = u.X, !neg
-		}
-		isBl := false
-		switch x := cond.(type) {
-		case *ssa.Parameter:
-			isBl = types.Identical(x.Type().Underlying(), types.Typ[types.Bool])
-		case *ssa.UnOp:
-			if x.Op == token.MUL {
-				_, name, _, ok := c14FieldSel(x.X)
-				isBl = ok && name == "Blinded"
+			if _, ok := c14VersionConst(b.Y, w); ok {
+				return true
 			}
-		case *ssa.Field:
-			_, name, _, ok := c14FieldSel(x)
-			isBl = ok && name == "Blinded"
 		}
-		if !isBl {
-			continue
-		}
-		br := c14BoolBranch{T: b.Succs[0], F: b.Succs[1]}
-		if neg {
-			br.T, br.F = br.F, br.T
-		}
-		out = append(out, br)
 	}
-	return out
+	return false
+}
+
+type c14SiteObs struct {
+	pos     token.Pos
+	field   string
+	first   bool
+	common  map[string]bool // versions known on every visit
+	blinded int8            // +1 / -1 when every visit agrees, 0 otherwise
+	owner   string
+}
+
+// c14M6Root is the result of exploring one root function of a wrapper.
+type c14M6Root struct {
+	fn       *ssa.Function
+	owners   []*ssa.Function // the functions whose comparisons dispatch on the version
+	handled  map[string]bool
+	ordering bool // the version is also compared by order / used as an index: the handled set is not exact
+	sites    map[string]*c14SiteObs
+	complete bool
+}
+
+func c14M6Explore(fn *ssa.Function, w c14Wrap, inWrap map[*ssa.Function]bool, hasCmp func(*ssa.Function) bool) c14M6Root {
+	res := c14M6Root{fn: fn, handled: map[string]bool{}, sites: map[string]*c14SiteObs{}}
+	verVal := map[symCV]*types.Named{}
+	blVal := map[symCV]bool{}
+	ownerSeen := map[*ssa.Function]bool{}
+	known := func(x *symX) map[string]bool {
+		out := map[string]bool{}
+		for c, nt := range verVal {
+			if k, ok := x.st.eqf[c]; ok {
+				out[c14VersionShort(nt, ssa.NewConst(k, nt))] = true
+			}
+		}
+		return out
+	}
+	res.complete = symExplore(fn, symHooks{
+		Budget: 1500000,
+		Init: func(x *symX) {
+			for _, p := range fn.Params {
+				if b, ok := p.Type().Underlying().(*types.Basic); ok && b.Kind() == types.Bool {
+					blVal[x.R(p)] = true
+				}
+			}
+		},
+		Inline: func(x *symX, site ssa.CallInstruction, callee *ssa.Function) bool {
+			return inWrap[callee] && hasCmp(callee)
+		},
+		After: func(x *symX, in ssa.Instruction) {
+			switch y := in.(type) {
+			case *ssa.UnOp:
+				if y.Op == token.MUL {
+					if _, name, _, ok := c14FieldSel(y.X); ok && name == "Blinded" {
+						blVal[x.R(y)] = true
+					}
+				}
+			case *ssa.Field:
+				if _, name, _, ok := c14FieldSel(y); ok && name == "Blinded" {
+					blVal[x.R(y)] = true
+				}
+			}
+		},
+		Before: func(x *symX, in ssa.Instruction) {
+			for s := range known(x) {
+				res.handled[s] = true
+			}
+			switch y := in.(type) {
+			case *ssa.BinOp:
+				var other ssa.Value
+				var kv ssa.Value
+				if _, ok := c14VersionConst(y.X, w); ok {
+					other, kv = y.Y, y.X
+				} else if _, ok := c14VersionConst(y.Y, w); ok {
+					other, kv = y.X, y.Y
+				}
+				if other == nil {
+					return
+				}
+				switch y.Op {
+				case token.EQL, token.NEQ:
+					verVal[x.R(other)] = c14Named(kv.Type())
+					_, f := x.Frame()
+					if !ownerSeen[f] {
+						ownerSeen[f] = true
+						res.owners = append(res.owners, f)
+					}
+				case token.LSS, token.LEQ, token.GTR, token.GEQ:
+					res.ordering = true
+				}
+			case *ssa.Lookup:
+				if c14IsVersionTyped(y.Index, w) {
+					res.ordering = true
+				}
+			case *ssa.Index:
+				if c14IsVersionTyped(y.Index, w) {
+					res.ordering = true
+				}
+			case *ssa.IndexAddr:
+				if c14IsVersionTyped(y.Index, w) {
+					res.ordering = true
+				}
+			}
+			v, ok := in.(ssa.Value)
+			if !ok {
+				return
+			}
+			field, _, ok := w.payloadSel(v)
+			if !ok {
+				return
+			}
+			key := fmt.Sprintf("%s%p", x.Chain(), in)
+			cur := known(x)
+			bl := int8(0)
+			for c := range blVal {
+				if k, ok := x.st.eqf[c]; ok && k.Kind() == constant.Bool {
+					b := int8(-1)
+					if constant.BoolVal(k) {
+						b = 1
+					}
+					if bl != 0 && bl != b {
+						bl = 2 // contradictory indicators: unknown
+					} else if bl == 0 {
+						bl = b
+					}
+				}
+			}
+			if bl == 2 {
+				bl = 0
+			}
+			so := res.sites[key]
+			if so == nil {
+				_, f := x.Frame()
+				so = &c14SiteObs{pos: in.Pos(), field: field, first: true, common: cur, blinded: bl, owner: an.FuncName(f)}
+				res.sites[key] = so
+				return
+			}
+			for s := range so.common {
+				if !cur[s] {
+					delete(so.common, s)
+				}
+			}
+			if so.blinded != bl {
+				so.blinded = 0
+			}
+		},
+	})
+	return res
 }
 
 func c14M6(c *rt.Ctx) {
@@ -1286,26 +1996,98 @@ func c14M6(c *rt.Ctx) {
 		c.Bail("no versioned wrapper types found in package core")
 	}
 	for _, w := range ws {
-		type fnCases struct {
-			fn    *ssa.Function
-			cases []c14VerCase
-			set   map[string]bool
+		funcs := c14WrapFuncs(c, w)
+		inWrap := map[*ssa.Function]bool{}
+		for _, fn := range funcs {
+			inWrap[fn] = true
 		}
-		var fcs []fnCases
-		union := map[string]bool{}
-		for _, fn := range c14WrapFuncs(c, w) {
-			cs := c14VersionCases(fn, w)
-			if len(cs) == 0 {
+		cmpMemo := map[*ssa.Function]bool{}
+		var hasCmp func(fn *ssa.Function) bool
+		hasCmp = func(fn *ssa.Function) bool {
+			if v, ok := cmpMemo[fn]; ok {
+				return v
+			}
+			cmpMemo[fn] = false
+			v := c14HasVersionCmp(fn, w)
+			if !v {
+				for _, ci := range an.Calls(fn, func(cc *ssa.CallCommon) bool { return inWrap[cc.StaticCallee()] }, true) {
+					if hasCmp(ci.Common().StaticCallee()) {
+						v = true
+					}
+				}
+			}
+			cmpMemo[fn] = v
+			return v
+		}
+		// helpers: wrapper functions called by another wrapper function are explored inside their callers
+		helper := map[*ssa.Function]bool{}
+		for _, fn := range funcs {
+			for _, ci := range an.Calls(fn, func(cc *ssa.CallCommon) bool { g := cc.StaticCallee(); return inWrap[g] && g != fn }, true) {
+				if g := ci.Common().StaticCallee(); hasCmp(g) {
+					helper[g] = true
+				}
+			}
+		}
+		var roots []c14M6Root
+		for _, fn := range funcs {
+			if helper[fn] || !hasCmp(fn) {
 				continue
 			}
-			fc := fnCases{fn: fn, cases: cs, set: map[string]bool{}}
-			for _, k := range cs {
-				fc.set[k.Short] = true
-				union[k.Short] = true
-			}
-			fcs = append(fcs, fc)
+			roots = append(roots, c14M6Explore(fn, w, inWrap, hasCmp))
 		}
-		if len(fcs) < 2 {
+		// group the roots by the function(s) that own the dispatch
+		type group struct {
+			name     string
+			fn       *ssa.Function
+			handled  map[string]bool
+			ordering bool
+			complete bool
+			roots    []c14M6Root
+		}
+		groups := map[string]*group{}
+		var order []string
+		for _, r := range roots {
+			owners := r.owners
+			if len(owners) == 0 {
+				continue
+			}
+			own := false
+			for _, o := range owners {
+				if o == r.fn {
+					own = true
+				}
+			}
+			if own {
+				owners = []*ssa.Function{r.fn}
+			}
+			for _, o := range owners {
+				top := o
+				for top.Parent() != nil {
+					top = top.Parent()
+				}
+				n := an.FuncName(top)
+				g := groups[n]
+				if g == nil {
+					g = &group{name: n, fn: top, handled: map[string]bool{}, complete: true}
+					for s := range r.handled {
+						g.handled[s] = true
+					}
+					groups[n] = g
+					order = append(order, n)
+				} else {
+					for s := range g.handled {
+						if !r.handled[s] {
+							delete(g.handled, s) // every root that dispatches through this function must handle the version
+						}
+					}
+				}
+				g.ordering = g.ordering || r.ordering
+				g.complete = g.complete && r.complete
+				g.roots = append(g.roots, r)
+			}
+		}
+		sort.Strings(order)
+		if len(order) < 2 {
 			c.Unsure("core."+w.Name, w.T.Obj().Pos(), "fewer than two version switches found for a versioned wrapper")
 			continue
 		}
@@ -1316,67 +2098,69 @@ func c14M6(c *rt.Ctx) {
 				hasBl[s] = true
 			}
 		}
-		// expected set: the versions handled by a majority of the wrapper's switches
+		// expected set: the versions handled by a majority of the wrapper's dispatching functions
+		union := map[string]bool{}
+		for _, n := range order {
+			for s := range groups[n].handled {
+				union[s] = true
+			}
+		}
 		for s := range union {
 			k := 0
-			for _, fc := range fcs {
-				if fc.set[s] {
+			for _, n := range order {
+				if groups[n].handled[s] {
 					k++
 				}
 			}
-			if 2*k <= len(fcs) {
+			if 2*k <= len(order) {
 				delete(union, s)
 			}
 		}
-		for _, fc := range fcs {
-			name := an.FuncName(fc.fn)
+		for _, n := range order {
+			g := groups[n]
 			var missing []string
 			for _, s := range c14SortedKeys(union) {
-				if !fc.set[s] {
+				if !g.handled[s] {
 					missing = append(missing, s)
 				}
 			}
-			c.Check(name+" handles every version", fc.fn.Pos(), len(missing) == 0,
-				"version(s) "+strings.Join(missing, ", ")+" handled by the sibling functions of "+w.Name+" have no case here")
-
-			bls := c14BlindedBranches(fc.fn)
-			good, why, pos, n := true, "", fc.fn.Pos(), 0
-			for _, in := range an.Instrs(fc.fn, false) {
-				v, ok := in.(ssa.Value)
-				if !ok {
-					continue
+			switch {
+			case !g.complete:
+				c.Unsure(n+" handles every version", g.fn.Pos(), "path exploration exceeded its budget")
+			case len(missing) == 0:
+				c.Good(n+" handles every version", g.fn.Pos(), "")
+			case g.ordering:
+				c.Unsure(n+" handles every version", g.fn.Pos(), "the version is also compared by order or used as an index; cannot tell whether "+strings.Join(missing, ", ")+" is handled")
+			default:
+				c.Bad(n+" handles every version", g.fn.Pos(), "version(s) "+strings.Join(missing, ", ")+" handled by the sibling functions of "+w.Name+" have no case here")
+			}
+			good, why, pos := true, "", g.fn.Pos()
+			for _, r := range g.roots {
+				var keys []string
+				for k := range r.sites {
+					keys = append(keys, k)
 				}
-				field, _, ok := w.payloadSel(v)
-				if !ok {
-					continue
-				}
-				short := w.Payload[field]
-				for _, k := range fc.cases {
-					if !c14Edge(k.Eq, k.Ne, in.Block()) {
+				sort.Strings(keys)
+				for _, k := range keys {
+					so := r.sites[k]
+					short := w.Payload[so.field]
+					if len(so.common) > 0 && !so.common[short] {
+						good, why, pos = false, fmt.Sprintf("the %s case accesses payload field %s of version %s", strings.Join(c14SortedKeys(so.common), "/"), so.field, short), so.pos
+					}
+					if !hasBl[short] {
 						continue
 					}
-					n++
-					if k.Short != short {
-						good, why, pos = false, fmt.Sprintf("the %s case accesses payload field %s of version %s", k.Short, field, short), in.Pos()
-					}
-				}
-				if !hasBl[short] {
-					continue
-				}
-				isBl := strings.HasSuffix(field, "Blinded")
-				for _, br := range bls {
-					onT, onF := c14Edge(br.T, br.F, in.Block()), c14Edge(br.F, br.T, in.Block())
-					if (onT && !isBl) || (onF && isBl) {
+					isBl := strings.HasSuffix(so.field, "Blinded")
+					if (so.blinded == 1 && !isBl) || (so.blinded == -1 && isBl) {
 						pol := "blinded"
-						if onF {
+						if so.blinded == -1 {
 							pol = "non-blinded"
 						}
-						good, why, pos = false, fmt.Sprintf("payload field %s is accessed on the %s branch", field, pol), in.Pos()
+						good, why, pos = false, fmt.Sprintf("payload field %s is accessed on the %s branch", so.field, pol), so.pos
 					}
 				}
 			}
-			_ = n
-			c.Check(name+" case↔payload pairing", pos, good, why)
+			c.Check(n+" case↔payload pairing", pos, good, why)
 		}
 	}
 }
@@ -1384,107 +2168,105 @@ func c14M6(c *rt.Ctx) {
 // ---------------------------------------------------------------------------------------------
 // M3 decode-nullable payloads are validated before they are dereferenced (E7)
 
-// c14Nullable: payload fields of w that UnmarshalJSON can leave nil: the field is assigned a local
-// pointer whose address was handed to json.Unmarshal (JSON null resets it to nil) and no nil test of
-// that pointer rejects before the assignment.
-func c14Nullable(c *rt.Ctx, w c14Wrap) (map[string]token.Pos, bool) {
+var c14IsJSONUnmarshal = an.Static("encoding/json.Unmarshal")
+
+// c14Nullable: payload fields of w that UnmarshalJSON can leave nil. On every path, the value stored into a payload
+// field is judged where it is stored: a pointer variable whose address was handed to json.Unmarshal (JSON null resets
+// it to nil) is nullable unless the path has established that it is non-nil; a value whose origin is not understood is
+// "unknown". found=false: no UnmarshalJSON.
+func c14Nullable(c *rt.Ctx, w c14Wrap) (nullable map[string]token.Pos, unknown map[string]token.Pos, found bool) {
 	fn := c.FnOpt("core." + w.Name + ".UnmarshalJSON")
 	if fn == nil {
-		return nil, false
+		return nil, nil, false
 	}
-	out := map[string]token.Pos{}
-	for _, in := range an.Instrs(fn, false) {
-		st, ok := in.(*ssa.Store)
-		if !ok {
-			continue
-		}
-		field, _, ok := w.payloadSel(st.Addr)
-		if !ok {
-			continue
-		}
-		ld, ok := st.Val.(*ssa.UnOp)
-		if !ok || ld.Op != token.MUL {
-			continue
-		}
-		al, ok := ld.X.(*ssa.Alloc)
-		if !ok {
-			continue
-		}
-		passed := false
-		for _, ref := range *al.Referrers() {
-			mi, ok := ref.(*ssa.MakeInterface)
+	nullable, unknown = map[string]token.Pos{}, map[string]token.Pos{}
+	complete := symExplore(fn, symHooks{
+		Inline: c14InlineIf(fn, c14IsJSONUnmarshal),
+		Before: func(x *symX, in ssa.Instruction) {
+			st, ok := in.(*ssa.Store)
 			if !ok {
-				continue
+				return
 			}
-			for _, r2 := range *mi.Referrers() {
-				if call, ok := r2.(*ssa.Call); ok && an.Static("encoding/json.Unmarshal")(&call.Call) {
-					passed = true
-				}
+			field, _, ok := w.payloadSel(st.Addr)
+			if !ok {
+				return
 			}
-		}
-		if !passed {
-			continue
-		}
-		guarded := false
-		for _, ref := range *al.Referrers() {
-			l2, ok := ref.(*ssa.UnOp)
-			if !ok || l2.Op != token.MUL {
-				continue
+			val := x.R(st.Val)
+			if x.NilCV(val) == 1 {
+				return
 			}
-			for _, cd := range an.CondsOn(fn, l2) {
-				if cd.Other == nil || !an.IsNilConst(cd.Other) || (cd.Op != token.EQL && cd.Op != token.NEQ) {
-					continue
-				}
-				nilSucc := cd.Succ(cd.Op == token.EQL)
-				if an.Dominates(cd.If, st) && an.EdgeCuts(nilSucc, st, nil) {
-					if succ, any := c14Success(nilSucc); !succ && any {
-						guarded = true
+			if x.NilCV(val) == -1 {
+				nullable[field] = st.Pos()
+				return
+			}
+			// content of a local whose address was given to json.Unmarshal?
+			if _, isAlloc := val.v.(*ssa.Alloc); isAlloc && strings.HasPrefix(val.p, "@") {
+				base := c14BaseOf(val)
+				for _, ev := range x.Trace() {
+					call, ok := ev.In.(*ssa.Call)
+					if !ok || !c14IsJSONUnmarshal(&call.Call) {
+						continue
+					}
+					for _, a := range ev.Args {
+						if x.UnboxCV(a) == base {
+							nullable[field] = st.Pos()
+							return
+						}
 					}
 				}
 			}
-		}
-		if !guarded {
-			out[field] = st.Pos()
-		}
+			unknown[field] = st.Pos()
+		},
+	})
+	if !complete {
+		c.Bail("core.%s.UnmarshalJSON: path exploration exceeded its budget", w.Name)
 	}
-	return out, true
-}
-
-type c14NilTest struct {
-	If               *ssa.If
-	NilSucc, NonNil  *ssa.BasicBlock
-	Field            string
-	RejectsWithError bool
+	for f := range nullable {
+		delete(unknown, f)
+	}
+	return nullable, unknown, true
 }
 
 type c14Touch struct {
-	unguarded  []string // "field@pos" of dereferences with no nil test / validating accessor before them
 	unguardedP []token.Pos
 	unguardedF []string
-	validates  map[string]bool // field -> nil test whose nil edge returns an error
-	libChecked []*ssa.Call     // error-checked accessor calls on the embedded library value
-	libAny     []*ssa.Call
+	validates  map[string]bool // field -> a nil test of it rejects with an error
+	libCalls   []*ssa.Call     // accessor calls on the embedded library value that succeeded on every successful path
+	complete   bool
 }
 
-// c14ErrDerived: v is e or a call taking e (errors.Wrap(e, …)).
-func c14ErrDerived(v, e ssa.Value) bool {
-	if v == e {
-		return true
+// c14PayloadOfCV: c is the payload pointer field of the receiver (value or pointer receiver).
+func (w c14Wrap) payloadOfCV(c, recv symCV, spills map[ssa.Value]bool) (string, bool) {
+	if (c.v != recv.v && !spills[c.v]) || c.f != recv.f || c.p == "" {
+		return "", false
 	}
-	if call, ok := v.(*ssa.Call); ok {
-		for _, a := range call.Call.Args {
-			if a == e {
-				return true
-			}
+	p := c.p
+	// strip a memory epoch "@n"
+	if strings.HasPrefix(p, "@") {
+		i := 1
+		for i < len(p) && p[i] >= '0' && p[i] <= '9' {
+			i++
+		}
+		p = p[i:]
+	}
+	ls, ok := w.L.Underlying().(*types.Struct)
+	if !ok {
+		return "", false
+	}
+	for i := 0; i < ls.NumFields(); i++ {
+		if _, isP := w.Payload[ls.Field(i).Name()]; isP && p == fmt.Sprintf(".0.%d", i) {
+			return ls.Field(i).Name(), true
 		}
 	}
-	return false
+	return "", false
 }
 
-// c14TouchOf analyses how method fn of wrapper w uses the decode-nullable payload fields of its receiver.
-func c14TouchOf(fn *ssa.Function, w c14Wrap, nullable map[string]token.Pos) c14Touch {
+// c14TouchOf analyses how method fn of wrapper w uses the decode-nullable payload fields of its receiver: every
+// dereference of such a pointer must happen on a path that has established it non-nil (a nil test) or after a
+// successful accessor call on the embedded library value (libOK tells whether an accessor validates payloads).
+func c14TouchOf(fn *ssa.Function, w c14Wrap, nullable map[string]bool, libOK func(*ssa.Function) bool) c14Touch {
 	t := c14Touch{validates: map[string]bool{}}
-	recv := fn.Params[0]
+	recvP := fn.Params[0]
 	hasErr := false
 	res := fn.Signature.Results()
 	for i := 0; i < res.Len(); i++ {
@@ -1492,136 +2274,173 @@ func c14TouchOf(fn *ssa.Function, w c14Wrap, nullable map[string]token.Pos) c14T
 			hasErr = true
 		}
 	}
-	// library accessors called on the embedded value of the receiver
-	for _, in := range an.Instrs(fn, false) {
-		call, ok := in.(*ssa.Call)
-		if !ok {
-			continue
-		}
+	var recv symCV
+	isLibAccessor := func(call *ssa.Call) bool {
 		f := call.Call.StaticCallee()
 		if f == nil || f.Signature.Recv() == nil || len(call.Call.Args) == 0 {
-			continue
+			return false
 		}
 		rn := c14Named(f.Signature.Recv().Type())
-		if rn == nil || rn.Obj() != w.L.Obj() || !rootedAt(call.Call.Args[0], recv) {
-			continue
+		return rn != nil && rn.Obj() == w.L.Obj()
+	}
+	// locals the receiver is spilled to (its address is taken for pointer-receiver accessors of the embedded value)
+	spills := map[ssa.Value]bool{}
+	for _, in := range an.Instrs(fn, false) {
+		if al, ok := in.(*ssa.Alloc); ok && an.UniqueStore(al) == ssa.Value(recvP) {
+			spills[al] = true
 		}
-		t.libAny = append(t.libAny, call)
-		if !hasErr {
-			continue
+	}
+	// accessor calls whose receiver is (the address of) the embedded value of this method's receiver
+	rooted := map[symVKey]bool{}
+	isRooted := func(x *symX, v ssa.Value) bool {
+		c := x.Unbox(v)
+		if c.v == recv.v && c.f == recv.f {
+			return true
 		}
-		errs, _ := an.StatusOf(call, -1)
-		checked := false
-		for _, e := range errs {
-			for _, cd := range an.CondsOn(fn, e) {
-				if cd.Other == nil || !an.IsNilConst(cd.Other) || (cd.Op != token.EQL && cd.Op != token.NEQ) {
+		if _, isPtr := v.Type().Underlying().(*types.Pointer); isPtr {
+			if base, _, ok := x.st.addr(v, x.fr.id); ok {
+				if (base.v == recv.v || spills[base.v]) && base.f == recv.f {
+					return true
+				}
+				if _, isAlloc := base.v.(*ssa.Alloc); isAlloc && base.p == "" {
+					if content, ok := x.st.mem[symAKey{base, ""}]; ok && content.v == recv.v && content.f == recv.f {
+						return true
+					}
+				}
+			}
+		}
+		return false
+	}
+	seenNonNil, seenNil := map[string]bool{}, map[string]bool{}
+	libAll := map[*ssa.Call]int{} // accessor -> number of successful paths on which it succeeded
+	nSucc := 0
+	reported := map[string]bool{}
+	fieldTok := map[string]symCV{}
+	t.complete = symExplore(fn, symHooks{
+		Init: func(x *symX) { recv = x.R(recvP) },
+		Inline: func(x *symX, site ssa.CallInstruction, callee *ssa.Function) bool {
+			if !c14SamePkg(callee, fn) {
+				return false
+			}
+			if callee.Parent() != nil {
+				return true
+			}
+			for _, a := range site.Common().Args {
+				ac := x.Unbox(a)
+				if ac.v == recv.v && ac.f == recv.f {
+					return true
+				}
+			}
+			return false
+		},
+		Before: func(x *symX, in ssa.Instruction) {
+			if call, ok := in.(*ssa.Call); ok && isLibAccessor(call) && isRooted(x, call.Call.Args[0]) {
+				rooted[symVKey{call, x.fr.id}] = true
+			}
+			var ptr ssa.Value
+			switch y := in.(type) {
+			case *ssa.FieldAddr:
+				ptr = y.X
+			case *ssa.IndexAddr:
+				ptr = y.X
+			case *ssa.UnOp:
+				if y.Op == token.MUL {
+					ptr = y.X
+				}
+			case *ssa.Call:
+				cc := &y.Call
+				if !cc.IsInvoke() && len(cc.Args) > 0 {
+					if f := cc.StaticCallee(); f != nil && f.Signature.Recv() != nil {
+						if _, isPtr := cc.Args[0].Type().Underlying().(*types.Pointer); isPtr {
+							ptr = cc.Args[0]
+						}
+					}
+				}
+			}
+			if ptr == nil {
+				return
+			}
+			pc := x.R(ptr)
+			field, ok := w.payloadOfCV(pc, recv, spills)
+			if !ok {
+				return
+			}
+			fieldTok[field] = pc
+			if !nullable[field] || x.NilCV(pc) == 1 {
+				return
+			}
+			// a successful validating accessor earlier on the path?
+			for _, ev := range x.Trace() {
+				call, ok := ev.In.(*ssa.Call)
+				if !ok || !isLibAccessor(call) || !rooted[symVKey{call, ev.Frame}] {
 					continue
 				}
-				fail := cd.Succ(cd.Op == token.NEQ)
-				rets := c14ReachRets(fail)
-				ok := len(rets) > 0
-				for _, r := range rets {
-					ev := c14ErrOf(r)
-					if ev == nil || !c14ErrDerived(ev, e) {
-						ok = false
-					}
-				}
-				if ok {
-					checked = true
+				if hasErr && x.CallOK(call, ev.Frame) == 1 && call.Call.Signature().Results().Len() > 0 && libOK(call.Call.StaticCallee()) {
+					return
 				}
 			}
-		}
-		if checked {
-			t.libChecked = append(t.libChecked, call)
-		}
-	}
-	// loads of nullable payload fields of the receiver
-	type load struct {
-		v     *ssa.UnOp
-		field string
-	}
-	var loads []load
-	for _, in := range an.Instrs(fn, false) {
-		ld, ok := in.(*ssa.UnOp)
-		if !ok || ld.Op != token.MUL {
-			continue
-		}
-		field, base, ok := w.payloadSel(ld.X)
-		if !ok {
-			continue
-		}
-		if _, isN := nullable[field]; !isN || !rootedAt(base, recv) {
-			continue
-		}
-		loads = append(loads, load{ld, field})
-	}
-	var tests []c14NilTest
-	for _, l := range loads {
-		for _, cd := range an.CondsOn(fn, l.v) {
-			if cd.Other == nil || !an.IsNilConst(cd.Other) || (cd.Op != token.EQL && cd.Op != token.NEQ) {
-				continue
+			key := fmt.Sprintf("%s@%d", field, posOf(in))
+			if !reported[key] {
+				reported[key] = true
+				t.unguardedF = append(t.unguardedF, field)
+				t.unguardedP = append(t.unguardedP, posOf(in))
 			}
-			nt := c14NilTest{If: cd.If, NilSucc: cd.Succ(cd.Op == token.EQL), NonNil: cd.Succ(cd.Op != token.EQL), Field: l.field}
-			if hasErr {
-				succ, any := c14Success(nt.NilSucc)
-				nt.RejectsWithError = any && !succ
-				// every return on the nil edge must carry a non-nil constant-free error
-				for _, r := range c14ReachRets(nt.NilSucc) {
-					if e := c14ErrOf(r); e == nil || c14IsNil(e) {
-						nt.RejectsWithError = false
-					}
+		},
+		After: func(x *symX, in ssa.Instruction) {
+			// remember the token of every payload pointer that is read (for the nil-test bookkeeping at returns)
+			if ld, ok := in.(*ssa.UnOp); ok && ld.Op == token.MUL {
+				pc := x.R(ld)
+				if field, ok := w.payloadOfCV(pc, recv, spills); ok {
+					fieldTok[field] = pc
 				}
 			}
-			tests = append(tests, nt)
-		}
-	}
-	for _, l := range loads {
-		for _, ref := range *l.v.Referrers() {
-			deref := false
-			switch x := ref.(type) {
-			case *ssa.FieldAddr:
-				deref = x.X == ssa.Value(l.v)
-			case *ssa.Field:
-				deref = x.X == ssa.Value(l.v)
-			case *ssa.UnOp:
-				deref = x.Op == token.MUL && x.X == ssa.Value(l.v)
-			case *ssa.IndexAddr:
-				deref = x.X == ssa.Value(l.v)
-			case ssa.CallInstruction:
-				cc := x.Common()
-				if !cc.IsInvoke() && len(cc.Args) > 0 && cc.Args[0] == ssa.Value(l.v) {
-					if f := cc.StaticCallee(); f != nil && f.Signature.Recv() != nil {
-						deref = true // method on a possibly nil pointer
-					}
+			if fv, ok := in.(*ssa.Field); ok {
+				pc := x.R(fv)
+				if field, ok := w.payloadOfCV(pc, recv, spills); ok {
+					fieldTok[field] = pc
 				}
 			}
-			if !deref {
-				continue
+		},
+		Return: func(x *symX, ret *ssa.Return, resv []symCV) {
+			if !hasErr || len(resv) == 0 {
+				return
 			}
-			guarded := false
-			for _, nt := range tests {
-				if nt.Field == l.field && an.Dominates(nt.If, ref) && an.EdgeCuts(nt.NilSucc, ref, nil) {
-					guarded = true
+			if x.NilCV(resv[len(resv)-1]) == 1 {
+				return
+			}
+			nSucc++
+			for f, tok := range fieldTok {
+				switch x.NilCV(tok) {
+				case 1:
+					seenNonNil[f] = true
+				case -1:
+					seenNil[f] = true
 				}
 			}
-			for _, g := range t.libChecked {
-				if ok, _ := an.Guarded(g, ref, an.DefaultGuard); ok {
-					guarded = true
+			done := map[*ssa.Call]bool{}
+			for _, ev := range x.Trace() {
+				call, ok := ev.In.(*ssa.Call)
+				if !ok || !isLibAccessor(call) || !rooted[symVKey{call, ev.Frame}] || done[call] {
+					continue
+				}
+				if x.CallOK(call, ev.Frame) == 1 && call.Call.Signature().Results().Len() > 0 {
+					done[call] = true
+					libAll[call]++
 				}
 			}
-			if !guarded {
-				t.unguardedF = append(t.unguardedF, l.field)
-				t.unguardedP = append(t.unguardedP, posOf(ref))
-			}
+		},
+	})
+	for f := range seenNonNil {
+		if !seenNil[f] {
+			t.validates[f] = true
 		}
 	}
-	// a field counts as validated for later methods when every version's nil test rejects with an error;
-	// per field: some nil test of it rejects with an error and dominates all success returns that follow its case
-	for _, nt := range tests {
-		if nt.RejectsWithError {
-			t.validates[nt.Field] = true
+	for call, n := range libAll {
+		if n == nSucc && nSucc > 0 {
+			t.libCalls = append(t.libCalls, call)
 		}
 	}
+	sort.Slice(t.libCalls, func(i, j int) bool { return t.libCalls[i].Pos() < t.libCalls[j].Pos() })
 	return t
 }
 
@@ -1719,54 +2538,104 @@ func c14M3(c *rt.Ctx) {
 	for _, w := range c14Wrappers(c) {
 		ws[w.Name] = w
 	}
-	// receive prefix: the order in which VerifyEth2SignedData calls the methods of the decoded value
+	// receive prefix: the order in which VerifyEth2SignedData (and the helpers it hands the value to) calls the
+	// methods of the decoded value; a fallible method must have succeeded before a later one is called
 	vf := c.Fn("core.VerifyEth2SignedData")
-	var data *ssa.Parameter
+	var dataP *ssa.Parameter
 	for _, p := range vf.Params {
 		if an.TypeName(p.Type()) == "core.Eth2SignedData" {
-			data = p
+			dataP = p
 		}
 	}
-	if data == nil {
+	if dataP == nil {
 		c.Bail("VerifyEth2SignedData: no Eth2SignedData parameter")
 	}
-	var prefix []ssa.CallInstruction
-	for _, ci := range an.Calls(vf, func(cc *ssa.CallCommon) bool { return cc.IsInvoke() && cc.Value == ssa.Value(data) }, false) {
-		prefix = append(prefix, ci)
+	var data symCV
+	agg := newC14Agg()
+	var seqs [][]string
+	onData := func(ev symEvent) (*ssa.Call, bool) {
+		call, ok := ev.In.(*ssa.Call)
+		return call, ok && call.Call.IsInvoke() && ev.Recv == data
 	}
-	if len(prefix) < 2 {
-		c.Bail("VerifyEth2SignedData: expected calls on the signed data")
-	}
-	sort.SliceStable(prefix, func(i, j int) bool { return an.Dominates(prefix[i], prefix[j]) })
-	for i := 0; i+1 < len(prefix); i++ {
-		if !an.Dominates(prefix[i], prefix[i+1]) {
-			c.Bail("VerifyEth2SignedData: calls on the signed data are not totally ordered")
-		}
+	complete := symExplore(vf, symHooks{
+		Init: func(x *symX) { data = x.R(dataP) },
+		Inline: func(x *symX, site ssa.CallInstruction, callee *ssa.Function) bool {
+			if !c14SamePkg(callee, vf) {
+				return false
+			}
+			if callee.Parent() != nil {
+				return true
+			}
+			for _, a := range site.Common().Args {
+				if x.R(a) == data {
+					return true
+				}
+			}
+			return false
+		},
+		Before: func(x *symX, in ssa.Instruction) {
+			call, ok := in.(*ssa.Call)
+			if !ok || !call.Call.IsInvoke() || x.R(call.Call.Value) != data {
+				return
+			}
+			for _, ev := range x.Trace() {
+				prev, ok := onData(ev)
+				if !ok {
+					continue
+				}
+				if _, has := symErrOf(prev, ev.Frame, x.st); !has {
+					continue
+				}
+				construct := "core.VerifyEth2SignedData " + prev.Call.Method.Name() + " error checked before later calls"
+				if x.CallOK(prev, ev.Frame) == 1 {
+					agg.add(construct, prev.Pos(), c14OK, "")
+				} else {
+					agg.add(construct, prev.Pos(), c14Bad, call.Call.Method.Name()+"() is called although "+prev.Call.Method.Name()+"() may have failed")
+				}
+			}
+		},
+		Return: func(x *symX, ret *ssa.Return, res []symCV) {
+			var seq []string
+			seen := map[string]bool{}
+			for _, ev := range x.Trace() {
+				if call, ok := onData(ev); ok && !seen[call.Call.Method.Name()] {
+					seen[call.Call.Method.Name()] = true
+					seq = append(seq, call.Call.Method.Name())
+				}
+			}
+			seqs = append(seqs, seq)
+		},
+	})
+	if !complete {
+		c.Bail("VerifyEth2SignedData: path exploration exceeded its budget")
 	}
 	var order []string
-	for i, ci := range prefix {
-		m := ci.Common().Method.Name()
-		order = append(order, m)
-		sig := ci.Common().Signature().Results()
-		hasErr := false
-		for k := 0; k < sig.Len(); k++ {
-			if an.IsErrorType(sig.At(k).Type()) {
-				hasErr = true
-			}
+	for _, s := range seqs {
+		if len(s) > len(order) {
+			order = s
 		}
-		if !hasErr || i+1 == len(prefix) {
-			continue
-		}
-		good, why := true, ""
-		for _, later := range prefix[i+1:] {
-			if ok, w := an.Guarded(ci, later, an.DefaultGuard); !ok {
-				good, why = false, later.Common().Method.Name()+"() is called although "+m+"() may have failed: "+w
-			}
-		}
-		c.Check("core.VerifyEth2SignedData "+m+" error checked before later calls", ci.Pos(), good, why)
 	}
+	if len(order) < 2 {
+		c.Bail("VerifyEth2SignedData: expected calls on the signed data")
+	}
+	idx := map[string]int{}
+	for i, m := range order {
+		idx[m] = i
+	}
+	for _, s := range seqs {
+		last := -1
+		for _, m := range s {
+			i, ok := idx[m]
+			if !ok || i < last {
+				c.Bail("VerifyEth2SignedData: calls on the signed data are not totally ordered")
+			}
+			last = i
+		}
+	}
+	agg.flush(c)
 	c.Note("M3 receive prefix: %s", strings.Join(order, " → "))
 
+	libMemo := map[*ssa.Function][2]string{}
 	n := 0
 	for _, nt := range implementors(c, lookupIface(c, "core", "Eth2SignedData"), "core") {
 		w, ok := ws[nt.Obj().Name()]
@@ -1775,12 +2644,27 @@ func c14M3(c *rt.Ctx) {
 		}
 		n++
 		tn := "core." + w.Name
-		nullable, found := c14Nullable(c, w)
+		nullPos, unkPos, found := c14Nullable(c, w)
 		if !found {
 			c.Unsure(tn+" decode-nullable payloads", nt.Obj().Pos(), "UnmarshalJSON not found")
 			continue
 		}
-		c.Good(tn+" decode-nullable payloads", nt.Obj().Pos(), "fields left nil by JSON null: "+strings.Join(c14SortedKeys(nullable), ","))
+		c.Good(tn+" decode-nullable payloads", nt.Obj().Pos(), "fields left nil by JSON null: "+strings.Join(c14SortedKeys(nullPos), ","))
+		nullable := map[string]bool{}
+		for f := range nullPos {
+			nullable[f] = true
+		}
+		for f := range unkPos {
+			nullable[f] = true
+		}
+		libOK := func(f *ssa.Function) bool {
+			if v, ok := libMemo[f]; ok {
+				return v[0] == "ok"
+			}
+			ok, why := c14LibValidates(c, f, w)
+			libMemo[f] = [2]string{map[bool]string{true: "ok", false: "no"}[ok], why}
+			return ok
+		}
 		libValidated := ""
 		validated := map[string]string{}
 		reported := map[string]bool{}
@@ -1790,24 +2674,40 @@ func c14M3(c *rt.Ctx) {
 				c.Unsure(tn+"."+m, nt.Obj().Pos(), "method of the receive prefix not found")
 				continue
 			}
-			t := c14TouchOf(fn, w, nullable)
-			good, why, pos := true, "", fn.Pos()
+			t := c14TouchOf(fn, w, nullable, libOK)
+			status, why, pos := c14OK, "", fn.Pos()
+			if !t.complete {
+				status, why = c14Unsure, "path exploration exceeded its budget"
+			}
 			for i, f := range t.unguardedF {
 				if libValidated != "" || validated[f] != "" || reported[f] {
 					continue
 				}
 				reported[f] = true
-				good, pos = false, t.unguardedP[i]
+				pos = t.unguardedP[i]
+				if _, unk := unkPos[f]; unk {
+					if status < c14Unsure {
+						status, why = c14Unsure, fmt.Sprintf("cannot tell whether UnmarshalJSON can leave payload %s nil; %s() dereferences it unchecked", f, m)
+					}
+					continue
+				}
+				status = c14Bad
 				why = fmt.Sprintf("payload %s is nil after decoding JSON null (UnmarshalJSON stores it unchecked) and %s() dereferences it with no nil test or validating accessor earlier in the receive prefix (%s): a peer-supplied message panics the process",
 					f, m, strings.Join(order, "→"))
 			}
-			c.Check(tn+"."+m+" validates nullable payloads before use", pos, good, why)
-			for _, g := range t.libChecked {
-				ok, w2 := c14LibValidates(c, g.Call.StaticCallee(), w)
-				if ok {
+			switch status {
+			case c14OK:
+				c.Good(tn+"."+m+" validates nullable payloads before use", pos, "")
+			case c14Unsure:
+				c.Unsure(tn+"."+m+" validates nullable payloads before use", pos, why)
+			default:
+				c.Bad(tn+"."+m+" validates nullable payloads before use", pos, why)
+			}
+			for _, g := range t.libCalls {
+				if libOK(g.Call.StaticCallee()) {
 					libValidated = m
 				} else if len(nullable) > 0 {
-					c.Unsure(tn+"."+m+" accessor "+g.Call.StaticCallee().Name(), g.Pos(), "cannot confirm that the library accessor validates the payload: "+w2)
+					c.Unsure(tn+"."+m+" accessor "+g.Call.StaticCallee().Name(), g.Pos(), "cannot confirm that the library accessor validates the payload: "+libMemo[g.Call.StaticCallee()][1])
 				}
 			}
 			for f := range t.validates {
@@ -1830,39 +2730,118 @@ func c14M3(c *rt.Ctx) {
 			if _, isPtr := p.Type().(*types.Pointer); isPtr || an.TypeName(p.Type()) != "core.UnsignedData" {
 				continue
 			}
-			good, why := true, ""
-			nClone := 0
-			for _, ref := range *p.Referrers() {
-				ci, ok := ref.(ssa.CallInstruction)
-				if !ok || !ci.Common().IsInvoke() || ci.Common().Value != ssa.Value(p) || ci.Common().Method.Name() != "Clone" {
-					if _, isDbg := ref.(*ssa.DebugRef); isDbg {
-						continue
-					}
-					good, why = false, "the decoded value is used directly ("+fmt.Sprintf("%T", ref)+"), not through its re-encoded clone"
-					continue
-				}
-				nClone++
-				if ci.Value() == nil {
-					continue
-				}
-				for _, r2 := range *ci.Value().Referrers() {
-					ex, ok := r2.(*ssa.Extract)
-					if !ok || ex.Index != 0 {
-						continue
-					}
-					for _, use := range *ex.Referrers() {
-						if ok, w := an.Guarded(ci, use, an.DefaultGuard); !ok {
-							good, why = false, "the clone is used although Clone() may have failed: "+w
-						}
-					}
-				}
+			st, why := c14OnlyViaClone(fn, p)
+			construct := an.FuncName(fn) + " uses decoded unsigned data only via Clone()"
+			switch st {
+			case c14OK:
+				c.Good(construct, fn.Pos(), "")
+			case c14Unsure:
+				c.Unsure(construct, fn.Pos(), why)
+			default:
+				c.Bad(construct, fn.Pos(), why)
 			}
-			if nClone == 0 && good {
-				good, why = false, "the decoded value is never cloned"
-			}
-			c.Check(an.FuncName(fn)+" uses decoded unsigned data only via Clone()", fn.Pos(), good, why)
 		}
 	}
+}
+
+// c14OnlyViaClone: on every path of fn (helpers of the package that receive the value are explored in place) the
+// decoded value p is used for nothing but calling its Clone() method, and the clone is used only where that call is
+// known to have succeeded.
+func c14OnlyViaClone(fn *ssa.Function, p *ssa.Parameter) (int, string) {
+	status, why := c14OK, ""
+	worse := func(st int, w string) {
+		if st > status {
+			status, why = st, w
+		}
+	}
+	var pv symCV
+	nClone := 0
+	inlines := func(x *symX, cc *ssa.CallCommon) bool {
+		callee := cc.StaticCallee()
+		if callee == nil || callee.Blocks == nil || !c14SamePkg(callee, fn) || cc.IsInvoke() {
+			return false
+		}
+		if callee.Parent() != nil {
+			return true
+		}
+		for _, a := range cc.Args {
+			if x.Unbox(a) == pv {
+				return true
+			}
+		}
+		return false
+	}
+	isCloneOfP := func(c symCV) (*ssa.Call, bool) {
+		call, ok := c.v.(*ssa.Call)
+		if !ok || !call.Call.IsInvoke() || call.Call.Method.Name() != "Clone" {
+			return nil, false
+		}
+		return call, true
+	}
+	cloneFrames := map[symVKey]bool{} // Clone() invocations on p (call, frame)
+	complete := symExplore(fn, symHooks{
+		Init:   func(x *symX) { pv = x.R(p) },
+		Inline: func(x *symX, site ssa.CallInstruction, callee *ssa.Function) bool { return inlines(x, site.Common()) },
+		Before: func(x *symX, in ssa.Instruction) {
+			switch y := in.(type) {
+			case *ssa.DebugRef, *ssa.Phi:
+				return
+			case *ssa.Call:
+				if y.Call.IsInvoke() && y.Call.Method.Name() == "Clone" && x.R(y.Call.Value) == pv {
+					nClone++
+					fid, _ := x.Frame()
+					cloneFrames[symVKey{y, fid}] = true
+				}
+			}
+			fid, _ := x.Frame()
+			for _, op := range in.Operands(nil) {
+				if op == nil || *op == nil {
+					continue
+				}
+				oc := x.R(*op)
+				uc := x.UnboxCV(oc)
+				if uc == pv {
+					switch y := in.(type) {
+					case *ssa.Call:
+						if y.Call.IsInvoke() && y.Call.Method.Name() == "Clone" && *op == y.Call.Value {
+							continue
+						}
+						if inlines(x, &y.Call) {
+							continue
+						}
+					case *ssa.Store:
+						if base, _, ok := x.st.addr(y.Addr, fid); ok && *op == y.Val {
+							if _, isAlloc := base.v.(*ssa.Alloc); isAlloc && base.p == "" {
+								continue // spilled into a local variable; loads resolve to the value again
+							}
+						}
+					case *ssa.MakeInterface, *ssa.ChangeInterface, *ssa.ChangeType:
+						continue // judged where the converted value is used
+					case *ssa.MakeClosure:
+						continue
+					}
+					worse(c14Bad, fmt.Sprintf("the decoded value is used directly (%T in %s), not through its re-encoded clone", in, an.FuncName(in.Parent())))
+					continue
+				}
+				// uses of the clone
+				if call, ok := isCloneOfP(symCV{v: oc.v, f: oc.f}); ok && oc.p == "#0" && cloneFrames[symVKey{call, oc.f}] {
+					if _, isExtract := in.(*ssa.Extract); isExtract {
+						continue
+					}
+					if x.CallOK(call, oc.f) != 1 {
+						worse(c14Bad, "the clone is used although Clone() may have failed")
+					}
+				}
+			}
+		},
+	})
+	if !complete {
+		worse(c14Unsure, "path exploration exceeded its budget")
+	}
+	if nClone == 0 {
+		worse(c14Bad, "the decoded value is never cloned")
+	}
+	return status, why
 }
 
 var c14Mutants = []Mutant{
@@ -1923,6 +2902,36 @@ var c14Mutants = []Mutant{
 		Old: "resp = append(resp, clonedContrib)", New: "_ = clonedContrib\n\t\tresp = append(resp, contrib)"},
 	{ID: "C14-M5-json-helper-error-replaced", File: "core/signeddata.go", Expect: "M5|core.cloneJSONMarshaler",
 		Old: "bytes, err := data.MarshalJSON()\n\tif err != nil {\n\t\treturn errors.Wrap(err, \"marshal data\")\n\t}\n\n\tif err := json.Unmarshal", New: "bytes, err := data.MarshalJSON()\n\tif err != nil {\n\t\tbytes = []byte(\"{}\")\n\t}\n\n\tif err := json.Unmarshal"},
+	// added with the path-sensitive reformulation (helpers explored in place, facts per path)
+	{ID: "C14-M2-qbft-bytes-replaced-on-branch", File: "core/consensus/qbft/msg.go", Expect: "M2|core/consensus/qbft.hashProto hashes",
+		Old: "\thh.PutBytes(b)\n", New: "\tif len(b) == 0 {\n\t\tb = []byte{0}\n\t}\n\n\thh.PutBytes(b)\n"},
+	{ID: "C14-M2-priority-hashroot-error-weakened", File: "core/priority/prioritiser.go", Expect: "M2|core/priority.hashProto returns",
+		Old: "hash, err := hh.HashRoot()\n\tif err != nil {", New: "hash, err := hh.HashRoot()\n\tif err != nil && len(b) == 0 {"},
+	{ID: "C14-M2-qbft-options-reset", File: "core/consensus/qbft/msg.go", Expect: "M2|core/consensus/qbft.hashProto marshals",
+		Old: "b, err := proto.MarshalOptions{Deterministic: true}.Marshal(msg)", New: "opts := proto.MarshalOptions{Deterministic: true}\n\topts = proto.MarshalOptions{AllowPartial: true}\n\tb, err := opts.Marshal(msg)"},
+	{ID: "C14-M3-verify-root-error-dropped", File: "core/eth2signeddata.go", Expect: "M3|VerifyEth2SignedData MessageRoot",
+		Old: "\tsigRoot, err := data.MessageRoot()\n\tif err != nil {\n\t\treturn err\n\t}", New: "\tsigRoot, err := data.MessageRoot()\n\tif err != nil {\n\t\tsigRoot = [32]byte{}\n\t}"},
+	{ID: "C14-M3-dutydb-clone-error-weakened", File: "core/dutydb/memory.go", Expect: "M3|storeAttestationUnsafe",
+		Old: "cloned, err := unsignedData.Clone() // Clone before storing.\n\tif err != nil {\n\t\treturn err\n\t}\n\n\tattData, ok", New: "cloned, err := unsignedData.Clone() // Clone before storing.\n\tif err != nil && pubkey == \"\" {\n\t\treturn err\n\t}\n\n\tattData, ok"},
+	{ID: "C14-M4-signed-recover-in-nested-closure", File: "core/proto.go", Expect: "M4|core.ParSignedDataFromProto recovers",
+		Old: "\t\tif r := recover(); r != nil {\n\t\t\toerr = recoverPanicErr(r)\n\t\t}\n\t}()\n\n\tif err := protonil.Check(data)", New: "\t\tfunc() {\n\t\t\tif r := recover(); r != nil {\n\t\t\t\toerr = recoverPanicErr(r)\n\t\t\t}\n\t\t}()\n\t}()\n\n\tif err := protonil.Check(data)"},
+	{ID: "C14-M4-unsigned-recover-stores-nil", File: "core/proto.go", Expect: "M4|core.UnsignedDataSetFromProto recovers",
+		Old: "\t\tif r := recover(); r != nil {\n\t\t\toerr = recoverPanicErr(r)\n\t\t}\n\t}()\n\n\tif set == nil", New: "\t\tif r := recover(); r != nil {\n\t\t\toerr = nil\n\t\t}\n\t}()\n\n\tif set == nil"},
+	{ID: "C14-M4-signed-decode-before-defer", File: "core/proto.go", Expect: "M4|core.ParSignedDataFromProto recover armed",
+		Old: "(_ ParSignedData, oerr error) {\n\tdefer func() {", New: "(_ ParSignedData, oerr error) {\n\t_ = unmarshal(data.GetData(), new(Signature))\n\n\tdefer func() {"},
+	{ID: "C14-M5-syncmsg-second-codec-unchecked", File: "core/signeddata.go", Expect: "M5|core.SignedSyncMessage.clone",
+		Old: "\t\treturn SignedSyncMessage{}, errors.Wrap(err, \"clone signed sync message\")\n\t}\n", New: "\t\treturn SignedSyncMessage{}, errors.Wrap(err, \"clone signed sync message\")\n\t}\n\n\t_ = cloneSSZMarshaler(s, &resp)\n"},
+	{ID: "C14-M5-contributions-clone-error-weakened", File: "core/unsigneddata.go", Expect: "M5|core.SyncContributions.Clone",
+		Old: "\t\tcloned, err := contrib.Clone()\n\t\tif err != nil {", New: "\t\tcloned, err := contrib.Clone()\n\t\tif err != nil && len(resp) > 0 {"},
+	{ID: "C14-M5-signature-copy-from-itself", File: "core/signeddata.go", Expect: "M5|core.Signature.clone",
+		Old: "\tcopy(resp, s)\n", New: "\tcopy(resp, resp)\n"},
+	{ID: "C14-M6-proposal-setsig-blinded-swapped", File: "core/signeddata.go", Expect: "M6|core.VersionedSignedProposal.SetSignature case",
+		Old: "\t\tif resp.Blinded {\n\t\t\tresp.CapellaBlinded.Signature = sig.ToETH2()", New: "\t\tif !resp.Blinded {\n\t\t\tresp.CapellaBlinded.Signature = sig.ToETH2()"},
+	{ID: "C14-M6-aggproof-root-no-fulu", File: "core/signeddata.go", Expect: "M6|core.VersionedSignedAggregateAndProof.MessageRoot",
+		Old: "\tcase eth2spec.DataVersionFulu:\n\t\tif ap.Fulu == nil {\n\t\t\treturn [32]byte{}, errors.New(\"unmarshal fulu\")", New: "\tcase eth2spec.DataVersionUnknown:\n\t\tif ap.Fulu == nil {\n\t\t\treturn [32]byte{}, errors.New(\"unmarshal fulu\")"},
+	{ID: "C14-M1-unsigned-sync-case-errors", File: "core/unsigneddata.go", Expect: "M1|unmarshalUnsignedData covers DutySyncContribution",
+		Old: "\t\tvar plural SyncContributions\n\t\tif err := unmarshal(data, &plural); err == nil {\n\t\t\treturn plural, nil\n\t\t}\n\n\t\tvar single SyncContribution\n\t\tif err := unmarshal(data, &single); err != nil {\n\t\t\treturn nil, errors.Wrap(err, \"unmarshal sync contribution\")\n\t\t}\n\n\t\treturn single, nil",
+		New: "\t\tvar plural SyncContributions\n\t\tif err := unmarshal(data, &plural); err == nil {\n\t\t\treturn nil, errors.New(\"plural\")\n\t\t}\n\n\t\tvar single SyncContribution\n\t\tif err := unmarshal(data, &single); err != nil {\n\t\t\treturn nil, errors.Wrap(err, \"unmarshal sync contribution\")\n\t\t}\n\n\t\treturn nil, errors.New(\"single\")"},
 	// M6
 	{ID: "C14-M6-att-setsig-no-fulu", File: "core/signeddata.go", Expect: "M6|core.VersionedAttestation.SetSignature handles",
 		Old: "\tcase eth2spec.DataVersionFulu:\n\t\tresp.Fulu.Signature = sig.ToETH2()\n\tdefault:\n\t\treturn nil, errors.New(\"unknown attestation version\"", New: "\tdefault:\n\t\treturn nil, errors.New(\"unknown attestation version\""},
